@@ -3,6 +3,8 @@ from __future__ import annotations
 
 import ast
 import os
+import re
+from fractions import Fraction
 
 from ..cfg import CFG
 from ..loops import dotted
@@ -20,7 +22,12 @@ EXPLANATION = (
     "mean of the horizon-summed model rewards of the broadcast actions and trajectories[:, :, :-1]. Bootstraps: indices drawn with "
     "replacement as an (n_ensemble, n) matrix, per epoch a permutation along axis 1 (each index once), truncated to a multiple of "
     "batch_size by a guarded negative slice, reshaped (n_ensemble, batch_size, -1) and transposed (2, 0, 1) so the member axis is never "
-    "merged. The Pendulum reward is compared, as a normal form, with the cost expression parsed from the installed gymnasium source."
+    "merged. The Pendulum reward is compared, as a normal form, with the cost expression parsed from the installed gymnasium source. "
+    "Roles are positions of the recorded signatures (never parameter or local names); the index pipeline, the wrappers and the bounding function are "
+    "found through dataflow (reaching definitions, the vmap that maps them), array idioms with several spellings (positional / keyword axis, "
+    "newaxis / None, trailing full slices, clip before / after indexing, exp(-v) / 1/exp(v)) are brought to one normal form on both sides. A "
+    "difference is reported only when the value that was read is built from the documented ingredients (or is a definite shape / constant / path); "
+    "any other form is undecided."
 )
 TRUSTED = ["jax.vmap / nnx.vmap in_axes semantics, nnx.split / merge of the stacked ensemble state", "jax.random.permutation(axis=1) permutes every row; choice(replace=True) draws with replacement", "installed gymnasium Pendulum source is the environment's reward"]
 RULES = {
@@ -34,6 +41,7 @@ RULES = {
 
 PE = "rl_blox.blox.probabilistic_ensemble."
 ENS = PE + "GaussianMLPEnsemble"
+_NP = ("jax.numpy.", "numpy.", "jax.lax.", "jax.nn.", "jax.")
 
 
 def _env(fn):
@@ -41,24 +49,263 @@ def _env(fn):
 
 
 def _m(repo, cq, name):
-    m = repo.method(cq, name, inherited=False)
+    m = repo.method(cq, name)      # follows the (repo-internal) MRO: a method moved to a base class / mixin is still the class's method
     if m is None:
         raise AnalysisError(f"{cq}.{name} not found (anchor vanished)")
-    fn = m[1]
-    fn._module = repo.cls(cq)._module
+    owner, fn = m
+    fn._module = repo.cls(owner)._module
     return fn
+
+
+def _roles(fn, n, site, skip_self=False):
+    """Names of the first ``n`` parameters of the recorded signature (roles are positions, never names; keyword-only parameters keep their place)."""
+    ps = param_names(fn)
+    if skip_self and ps and ps[0] in ("self", "cls"):
+        ps = ps[1:]
+    if len(ps) < n or fn.args.vararg is not None:
+        raise AnalysisError(f"{site}: signature {ps} changed (anchor vanished)")
+    return ps[:n]
+
+
+def _spec_env(fn, recorded, site, skip_self=False):
+    """Environment for a documented formula written with the recorded parameter names: each recorded name denotes the parameter at its position."""
+    return {r: Poly.atom(p, {p}, {p}) for r, p in zip(recorded, _roles(fn, len(recorded), site, skip_self))}
+
+
+_UNREAD = re.compile(r"φ\(|⟦|λ\[|\b\w+__i\d+\b")
+
+
+def _unread(p: Poly) -> bool:
+    return bool(_UNREAD.search(p.canon()))
+
+
+def _decide(ck, rule, site, key, got: Poly, want, shown: str, why: str, where, extra=()):
+    """Equal to (one of) the documented normal form(s) -> holds.  Different -> a violation only when the value that was read is built from the
+    documented ingredients (then the two normal forms denote different functions); anything else is a form this rule does not read."""
+    wants = want if isinstance(want, (list, tuple)) else [want]
+    ok = any(got == w for w in wants)
+    if not ok and (_unread(got) or not same_ingredients(got, wants[0], extra)):
+        raise AnalysisError(f"{site}: {key} is `{got.canon()[:110]}` (unrecognised form)")
+    ck.ob(rule, site, key, ok, shown, "" if ok else why, where)
+    return ok
+
+
+# ---- one spelling for array idioms that have several (applied to copies of the analysed functions and to the documented formulas alike) -----
+_REDUCERS = {"mean", "sum", "var", "std", "max", "min", "prod", "argmax", "argmin", "any", "all", "amax", "amin"}
+
+
+class _Spelling(ast.NodeTransformer):
+    """reduce(x, k) / x.reduce(k) -> axis=k;  jnp.newaxis -> None;  x[i, :] / x[i, ...] -> x[i];  clip(x, lo, hi)[i] -> clip(x[i], lo, hi) for scalar
+    bounds (see also _index_into_clip, which does the same on normal forms).  Every rewrite yields the same array, element for element."""
+
+    def __init__(self, repo, mi):
+        self.repo, self.mi = repo, mi
+
+    def _lib(self, f):
+        r = self.repo.resolve_expr(self.mi, f) if isinstance(f, (ast.Name, ast.Attribute)) else None
+        return r if r and r.startswith(_NP) else None
+
+    def visit_Call(self, n):
+        self.generic_visit(n)
+        f = n.func
+        if isinstance(f, ast.Attribute) and f.attr in _REDUCERS and not any(k.arg in ("axis", None) for k in n.keywords) and not any(isinstance(a, ast.Starred) for a in n.args):
+            root = f
+            while isinstance(root, ast.Attribute):
+                root = root.value
+            pos = 1 if self._lib(f) else (0 if not (isinstance(root, ast.Name) and self.repo.resolve_name(self.mi, root.id)) else None)
+            if pos is not None and len(n.args) == pos + 1:
+                n.keywords = [ast.keyword(arg="axis", value=n.args[pos])] + list(n.keywords)
+                n.args = n.args[:pos]
+        return n
+
+    def visit_Attribute(self, n):
+        self.generic_visit(n)
+        if n.attr == "newaxis" and isinstance(n.ctx, ast.Load) and self.repo.resolve_expr(self.mi, n) in ("numpy.newaxis", "jax.numpy.newaxis"):
+            return ast.copy_location(ast.Constant(value=None), n)
+        return n
+
+    def visit_Subscript(self, n):
+        self.generic_visit(n)
+        if not isinstance(n.ctx, ast.Load):
+            return n
+        if isinstance(n.slice, ast.Tuple) and len(n.slice.elts) >= 2:
+            el = list(n.slice.elts)
+            full = lambda x: (isinstance(x, ast.Slice) and x.lower is None and x.upper is None and x.step is None)
+            if isinstance(el[-1], ast.Constant) and el[-1].value is Ellipsis:
+                el.pop()
+            elif not any(isinstance(x, ast.Constant) and x.value is Ellipsis for x in el):
+                while len(el) > 1 and full(el[-1]):
+                    el.pop()
+            if len(el) != len(n.slice.elts):
+                n.slice = el[0] if len(el) == 1 else ast.copy_location(ast.Tuple(elts=el, ctx=ast.Load()), n.slice)
+        v = n.value
+        if isinstance(v, ast.Call) and (self._lib(v.func) or "").endswith(".clip") and v.args and not isinstance(v.args[0], ast.Starred) and all(k.arg is not None for k in v.keywords) \
+                and all(self._scalar(a) for a in list(v.args[1:]) + [k.value for k in v.keywords]):
+            # clipping with scalar bounds is element-wise: clip(x, lo, hi)[i] is clip(x[i], lo, hi)
+            inner = ast.copy_location(ast.Subscript(value=v.args[0], slice=n.slice, ctx=ast.Load()), n)
+            return ast.copy_location(ast.Call(func=v.func, args=[inner] + list(v.args[1:]), keywords=list(v.keywords)), n)
+        return n
+
+    def _scalar(self, e):
+        if isinstance(e, ast.UnaryOp) and isinstance(e.op, (ast.USub, ast.UAdd)):
+            return self._scalar(e.operand)
+        if isinstance(e, ast.Constant):
+            return isinstance(e.value, (int, float)) and not isinstance(e.value, bool)
+        if isinstance(e, ast.Name):
+            d = self.mi.defs.get(e.id)
+            return isinstance(d, (ast.Assign, ast.AnnAssign)) and d.value is not None and self._scalar(d.value)
+        return False
+
+
+def _spelled(ck, repo, fn, mi=None):
+    """Copy of a function (positions kept) in the canonical spelling; the original tree is not touched."""
+    from ..expand import clone
+    mi = mi or fn._module
+    new = _Spelling(repo, mi).visit(clone(fn))
+    ast.fix_missing_locations(new)
+    for parent in ast.walk(new):
+        for child in ast.iter_child_nodes(parent):
+            child._parent = parent
+    new._parent = getattr(fn, "_parent", None)
+    new._module = mi
+    new._qual = getattr(fn, "_qual", fn.name)
+    for x in ast.walk(new):
+        if isinstance(x, ast.FunctionDef):
+            x._module = mi
+    ck._keep = getattr(ck, "_keep", []) + [new]      # the CFG cache is keyed by id(fn)
+    return new
+
+
+def _spec(nf, repo, mi, text, env, self_class=None):
+    e = _Spelling(repo, mi).visit(parse_expr(text))
+    ast.fix_missing_locations(e)
+    return nf.poly(e, Scope(None, mi, env, "spec", self_class=self_class), None)
+
+
+def _exp_merged(nf, p: Poly, depth: int = 0) -> Poly:
+    """exp(a)^k * exp(b) -> exp(k*a + b), also under mean / sum: one normal form for x / exp(v) and x * exp(-v)."""
+    if p.elems is not None or depth > 6:
+        return p
+    out = Poly({}, p.deps, p.gdeps)
+    for mono, c in p.terms.items():
+        term, expo = Poly({(): c}), None
+        for a, k in mono:
+            m = nf.meta.get(a, {})
+            fn = m.get("fn", "")
+            if fn.split(".")[-1] == "exp" and len(m.get("args", [])) == 1 and not m.get("kws"):
+                e = _exp_merged(nf, m["args"][0], depth + 1).scale(k)
+                expo = e if expo is None else expo + e
+            elif fn in ("mean", "sum") and m.get("args") and k > 0:
+                term = term * nf._libcall(fn, [_exp_merged(nf, m["args"][0], depth + 1)] + list(m["args"][1:]), dict(m.get("kws", {})), None).pow(k)
+            else:
+                term = term * Poly({((a, k),): Fraction(1)})
+        if expo is not None and not expo.is_zero():
+            term = term * nf._mkcall("exp", [expo], {})
+        out = out + term
+    return out.with_meta(p.deps, p.gdeps)
+
+
+def _index_into_clip(nf, p: Poly) -> Poly:
+    """clip(x, lo, hi)[i] -> clip(x[i], lo, hi) for constant bounds (clipping is element-wise): one normal form for both orders."""
+    m = {}
+    for a in p.atoms():
+        ms = nf.meta.get(a, {})
+        base = ms["args"][0] if ms.get("fn") == "subscript" and len(ms.get("args", [])) == 1 else None
+        mc = nf.meta.get(base.single_atom() or "", {}) if base is not None else {}
+        if mc.get("fn", "").split(".")[-1] == "clip" and len(mc.get("args", [])) == 3 and not mc.get("kws") and a.startswith(base.canon() + "[") and a.endswith("]"):
+            xs = [x for x in mc["args"] if x.const_value() is None]
+            cs = [x for x in mc["args"] if x.const_value() is not None]
+            if len(xs) == 1 and len(cs) == 2:
+                sub = nf._reg(Poly.atom(f"{xs[0].canon()}{a[len(base.canon()):]}", xs[0].deps, xs[0].gdeps), "subscript", [xs[0]])
+                m[a] = nf._mkcall(mc["fn"], [sub] + sorted(cs, key=lambda c_: c_.const_value()), {})
+    return p.subst(m) if m else p
+
+
+def _returned(nf, fn, mi, env, site, self_class=None):
+    """(normal form, CFG node) of the single returned expression."""
+    cfg = nf.cfg_of(fn)
+    rets = [n for n in cfg.nodes if n.kind == "stmt" and isinstance(n.ast, ast.Return) and n.ast.value is not None]
+    if len(rets) != 1:
+        raise AnalysisError(f"{site}: {len(rets)} return statements (unrecognised form)")
+    sc = Scope(cfg, mi, env, site, self_class=self_class)
+    return nf.poly(rets[0].ast.value, sc, rets[0].id), rets[0]
+
+
+def _vmap_axes(repo, mi, call):
+    """(in_axes expression | None, out_axes expression | None) of `vmap(f, in_axes, out_axes)` / `partial(vmap, ...)` / `vmap(in_axes=...)`, or None
+    when the call is not a vmap."""
+    if not isinstance(call, ast.Call) or not isinstance(call.func, (ast.Name, ast.Attribute)):
+        return None
+    r = repo.resolve_expr(mi, call.func)
+    args = list(call.args)
+    if r == "functools.partial" and args and isinstance(args[0], (ast.Name, ast.Attribute)) and repo.resolve_expr(mi, args[0]) in ("jax.vmap", "flax.nnx.vmap"):
+        args = args[1:]
+    elif r not in ("jax.vmap", "flax.nnx.vmap"):
+        return None
+    kw = {k.arg: k.value for k in call.keywords}
+    return kw.get("in_axes", args[1] if len(args) > 1 else None), kw.get("out_axes", args[2] if len(args) > 2 else None)
+
+
+def _literal_axes(repo, mi, fn, site):
+    """The shape engine reads the axes of a vmap from the literal; a named / computed axes value would be read as the default.  Such a wrapper is
+    a form this check does not read (never evidence)."""
+    for c in ast.walk(fn):
+        ax = _vmap_axes(repo, mi, c)
+        for a in (ax or ()):
+            if a is not None:
+                try:
+                    ast.literal_eval(a)
+                except Exception:
+                    raise AnalysisError(f"{site}: vmap axes `{short(a, 40)}` are not written as a literal (unrecognised form)")
+
+
+def _mapped_functions(repo, init):
+    """name -> (FunctionDef, module) of the functions __init__ hands to vmap by name: local functions and functions of the package."""
+    imi = init._module
+    locals_ = {n.name: n for n in ast.walk(init) if isinstance(n, ast.FunctionDef) and n is not init}
+    out = {}
+    for c in ast.walk(init):
+        if _vmap_axes(repo, imi, c) is not None and c.args and isinstance(c.args[0], ast.Name):
+            nm = c.args[0].id
+            if nm in locals_:
+                out[nm] = (locals_[nm], imi)
+            else:
+                r = repo.resolve_expr(imi, c.args[0])
+                if r and r.startswith(repo.PKG + ".") and repo.has(r):
+                    m2, node = repo.lookup(r)
+                    if isinstance(node, ast.FunctionDef):
+                        out[nm] = (node, m2)
+    return out
+
+
+def _bounding_function(repo, init):
+    """The element-wise bounding function (log_var, min, max) that the wrappers map: found through the vmaps, not by its name."""
+    c = {id(f): (f, m) for f, m in _mapped_functions(repo, init).values() if len(positional_params(f)) == 3}
+    if len(c) != 1:
+        raise AnalysisError(f"{ENS}.__init__: {len(c)} three-argument functions are mapped by the bounding wrappers (unrecognised form)")
+    return next(iter(c.values()))
 
 
 def _class_self(repo, se):
     """Interpret GaussianMLPEnsemble.__init__ to obtain the function values stored on self."""
     init = _m(repo, ENS, "__init__")
+    _literal_axes(repo, init._module, init, ENS + ".__init__")
     attrs = {}
-    env = {"n_ensemble": ("dim", "E"), "n_outputs": ("dim", "O"), "n_features": ("dim", "F")}
-    se.module_tuple_out.update({"model": ["O", "O"]})
-    se.analyse(init, init._module, ENS + ".__init__", env, {}, 0, attrs)
+    locals_ = {n.name for n in ast.walk(init) if isinstance(n, ast.FunctionDef) and n is not init}
+    fnenv = {nm: Fn("def", f, m, {}) for nm, (f, m) in _mapped_functions(repo, init).items() if nm not in locals_}
+    p_e, _sh, p_f, p_o = _roles(init, 4, ENS + ".__init__", skip_self=True)     # recorded: n_ensemble, shared_head, n_features, n_outputs
+    env = {p_e: ("dim", "E"), p_o: ("dim", "O"), p_f: ("dim", "F")}
+    # the member network (first parameter of the local forward functions / lambdas) returns (mean, log-variance), one entry per output
+    for x in ast.walk(init):
+        if isinstance(x, (ast.FunctionDef, ast.Lambda)) and x is not init and x.args.args:
+            se.module_tuple_out.setdefault(x.args.args[0].arg, ["O", "O"])
+    se.analyse(init, init._module, ENS + ".__init__", env, fnenv, 0, attrs)
     # seeds for properties / parameters (documented: one bound per output)
     attrs.update({"min_log_var": ("O",), "max_log_var": ("O",), "ensemble": ("E",), "n_outputs": ("dim", "O"), "n_ensemble": ("dim", "E")})
     return attrs
+
+
+_ARRAY_FACTS = ("shape", "ndim", "dtype", "size")
 
 
 def r0_live_bounds(ck, repo):
@@ -67,27 +314,33 @@ def r0_live_bounds(ck, repo):
     cls = repo.cls(ENS)
     mi = cls._module
     props = {}
-    for m in cls.body:
-        if isinstance(m, ast.FunctionDef) and any(dotted(d) == "property" for d in m.decorator_list):
-            reads = {x.attr for x in ast.walk(m) if isinstance(x, ast.Attribute) and isinstance(x.value, ast.Name) and x.value.id == "self"}
-            props[m.name] = reads
+    for cq in repo.mro(ENS):
+        for m in repo.cls(cq).body:
+            if isinstance(m, ast.FunctionDef) and m.name not in props and any(dotted(d) in ("property", "functools.cached_property", "cached_property") for d in m.decorator_list):
+                selfname = m.args.args[0].arg if m.args.args else "self"
+                props[m.name] = {x.attr for x in ast.walk(m) if isinstance(x, ast.Attribute) and isinstance(x.value, ast.Name) and x.value.id == selfname}
     init = _m(repo, ENS, "__init__")
+    imi = init._module
     # parameters created in __init__ (nnx.Param): properties that read them are trainable quantities
     trainable = set()
     for st in ast.walk(init):
-        if isinstance(st, ast.Assign) and len(st.targets) == 1 and isinstance(st.targets[0], ast.Attribute) and dotted(st.targets[0].value) == "self" and isinstance(st.value, ast.Call) \
-                and (repo.resolve_expr(mi, st.value.func) or "").endswith("nnx.Param"):
-            trainable.add(st.targets[0].attr)
+        tgts = st.targets if isinstance(st, ast.Assign) else [st.target] if isinstance(st, ast.AnnAssign) and st.value is not None else []
+        if len(tgts) == 1 and isinstance(tgts[0], ast.Attribute) and dotted(tgts[0].value) == "self" and isinstance(st.value, ast.Call) and isinstance(st.value.func, (ast.Name, ast.Attribute)) \
+                and (repo.resolve_expr(imi, st.value.func) or "").endswith("nnx.Param"):
+            trainable.add(tgts[0].attr)
     live = {p for p, reads in props.items() if reads & trainable}
     ck.need(live, f"{ENS}: no property over trainable parameters found (anchor vanished)")
 
     def eager_loads(node):
-        """Attribute loads self.<live property> that are evaluated when ``node`` is (not inside a lambda / nested def body)."""
+        """Attribute loads self.<live property> whose *value* is evaluated when ``node`` is (not inside a lambda / nested def body, not a mere
+        read of the array's shape / dtype, which training does not change)."""
         out = []
         stack = [node]
         while stack:
             x = stack.pop()
             if isinstance(x, (ast.Lambda, ast.FunctionDef)) and x is not node:
+                continue
+            if isinstance(x, ast.Attribute) and x.attr in _ARRAY_FACTS and isinstance(x.value, ast.Attribute) and isinstance(x.value.value, ast.Name) and x.value.value.id == "self" and x.value.attr in live:
                 continue
             if isinstance(x, ast.Attribute) and isinstance(x.value, ast.Name) and x.value.id == "self" and x.attr in live and isinstance(x.ctx, ast.Load):
                 out.append(x)
@@ -96,86 +349,123 @@ def r0_live_bounds(ck, repo):
     frozen = []
     for st in init.body:
         for sub in ast.walk(st):
-            if isinstance(sub, ast.Assign) and any(isinstance(t, ast.Attribute) and dotted(t.value) == "self" for t in sub.targets):
+            tgts = sub.targets if isinstance(sub, ast.Assign) else [sub.target] if isinstance(sub, ast.AnnAssign) and sub.value is not None else []
+            if any(isinstance(t, ast.Attribute) and dotted(t.value) == "self" for t in tgts):
                 frozen += [(sub, x) for x in eager_loads(sub.value)]
     ck.ob("R3-nll", ENS + ".__init__", "bounds-read-at-call-time", not frozen, f"properties over trainable parameters: {sorted(live)}",
-          "" if not frozen else f"`{short(frozen[0][0], 80)}` stores the value of `self.{frozen[0][1].attr}` at construction: the forward paths keep using the initial bounds after the bound parameters are trained / restored", loc(mi, frozen[0][0]) if frozen else loc(mi, init))
+          "" if not frozen else f"`{short(frozen[0][0], 80)}` stores the value of `self.{frozen[0][1].attr}` at construction: the forward paths keep using the initial bounds after the bound parameters are trained / restored", loc(imi, frozen[0][0]) if frozen else loc(imi, init))
+
+
+_DIMS = {"E", "N", "O", "F"}
+
+
+def _known_shape(s):
+    return isinstance(s, tuple) and all(isinstance(d, int) or d in _DIMS for d in s)
+
+
+def _pair(r):
+    return r[1] if isinstance(r, tuple) and len(r) == 2 and r[0] == "tuple" and isinstance(r[1], list) and len(r[1]) == 2 else None
 
 
 def r1_shapes(ck, repo):
     se = ShapeEngine(repo, max_depth=5)
     se.merge_out = ["O", "O"]
     attrs = _class_self(repo, se)
-    need = [k for k in ("_safe_log_var", "_safe_log_var_i", "_forward_ensemble", "_forward_individual") if not (isinstance(attrs.get(k), tuple) and attrs[k] and attrs[k][0] == "fn")]
-    ck.need(not need, f"{ENS}.__init__: function-valued attributes {need} not recognised (unrecognised idiom)")
     se.class_self[ENS] = attrs
-    cases = [("__call__", {"x": ("N", "F")}, "ensemble"), ("__call__", {"x": ("E", "N", "F")}, "per-member"), ("aggregate", {"x": ("N", "F")}, "agg"), ("base_predict", {"x": ("N", "F"), "i": ()}, "member")]
-    for meth, argsh, tag in cases:
+    cases = [("__call__", [("N", "F")], "ensemble", ("E", "N")), ("__call__", [("E", "N", "F")], "per-member", ("E", "N")), ("aggregate", [("N", "F")], "agg", ("N",)), ("base_predict", [("N", "F"), ()], "member", ("N",)),
+             ("base_distribution", [("N", "F"), ()], "dist", ("N",))]
+    for meth, shapes, tag, want_lead in cases:
         fn = _m(repo, ENS, meth)
-        se.alarms = []
-        r = se.analyse(fn, fn._module, f"{ENS}.{meth}", dict(argsh), {}, 0, dict(attrs))
         site = f"{ENS}.{meth}"
-        ok = isinstance(r, tuple) and r and r[0] == "tuple" and len(r[1]) == 2 and r[1][0] is not None and r[1][0] == r[1][1] and r[1][0][-1] == "O"
-        want_lead = {"ensemble": ("E", "N"), "per-member": ("E", "N"), "agg": ("N",), "member": ("N",)}[tag]
-        ok = ok and tuple(r[1][0][:-1]) == want_lead
-        got = r[1] if isinstance(r, tuple) and r and r[0] == "tuple" else r
-        known = isinstance(r, tuple) and r and r[0] == "tuple" and len(r[1]) == 2 and any(isinstance(x, tuple) and None not in x for x in r[1])
-        if not ok and not known and not se.alarms:
-            # the abstract shapes could not be followed through this formulation: undecided, not a violation
-            raise AnalysisError(f"{site}: symbolic shapes of (mean, variance) could not be determined for x {tuple(argsh['x'])} (got {got}): restructured beyond what the shape engine follows")
-        ck.ob("R1-one-variance-per-output", site, f"mean-var-shapes:{tag}", bool(ok), f"x {tuple(argsh['x'])} -> mean {got[0] if isinstance(got, list) else got}, variance {got[1] if isinstance(got, list) and len(got) > 1 else None}",
-              "" if ok else f"mean and variance must both have shape {want_lead + ('O',)}: one variance per output dimension (a second output axis means every scalar was broadcast against the per-output bounds)", loc(fn._module, fn))
+        _literal_axes(repo, fn._module, fn, site)
+        argsh = dict(zip(_roles(fn, len(shapes), site, skip_self=True), shapes))      # recorded: (x) / (x, i)
+        se.alarms = []
+        r = se.analyse(fn, fn._module, site, dict(argsh), {}, 0, dict(attrs))
+        pr = _pair(r)
+        want = want_lead + ("O",)
+        what = "(loc, scale)" if tag == "dist" else "(mean, variance)"
+        ok = pr is not None and pr[0] == want and pr[1] == want
+        # evidence = both shapes were derived completely and differ from the documented one; a shape the engine lost on the way is no evidence
+        decided = pr is not None and _known_shape(pr[0]) and _known_shape(pr[1])
+        if not ok and not decided and not se.alarms:
+            raise AnalysisError(f"{site}: symbolic shapes of {what} could not be determined for x {shapes[0]} (got {pr if pr is not None else r}): restructured beyond what the shape engine follows")
+        if ok or decided:
+            key = "loc-scale-shapes" if tag == "dist" else f"mean-var-shapes:{tag}"
+            ck.ob("R1-one-variance-per-output", site, key, bool(ok), f"x {shapes[0]} -> {what} = ({pr[0]}, {pr[1]})",
+                  "" if ok else (f"loc and scale_diag must both be {want}" if tag == "dist" else f"mean and variance must both have shape {want}: one variance per output dimension (a second output axis means every scalar was broadcast against the per-output bounds)"), loc(fn._module, fn))
         for rel, line, kind, text, qual in se.alarms:
             ck.ob("R1-one-variance-per-output", site, f"shape:{kind}", False, kind, text, f"{rel}:{line}")
-    fn = _m(repo, ENS, "base_distribution")
-    se.alarms = []
-    r = se.analyse(fn, fn._module, ENS + ".base_distribution", {"x": ("N", "F"), "i": ()}, {}, 0, dict(attrs))
-    ok = isinstance(r, tuple) and r and r[0] == "tuple" and r[1][0] == r[1][1] == ("N", "O")
-    known = isinstance(r, tuple) and r and r[0] == "tuple" and len(r[1]) == 2 and any(isinstance(x, tuple) and None not in x for x in r[1])
-    if not ok and not known and not se.alarms:
-        raise AnalysisError(f"{ENS}.base_distribution: symbolic shapes of (loc, scale) could not be determined (got {r})")
-    ck.ob("R1-one-variance-per-output", ENS + ".base_distribution", "loc-scale-shapes", bool(ok), f"x (N,F) -> loc {r[1][0] if ok or (isinstance(r, tuple) and r and r[0] == 'tuple') else r}, scale {r[1][1] if isinstance(r, tuple) and r and r[0] == 'tuple' else None}",
-          "" if ok else "loc and scale_diag must both be (N, O)", loc(fn._module, fn))
-    # vmap depth of the wrappers
-    d1, d2 = attrs["_safe_log_var_i"][1], attrs["_safe_log_var"][1]
-    depth = lambda f: 0 if f.kind != "vmap" else 1 + depth(f.args[0])
-    ok = depth(d1) == 1 and depth(d2) == 2 and d1.args[1] == (0, None, None) and d2.args[1] == (0, None, None)
-    ck.ob("R1-one-variance-per-output", ENS + ".__init__", "wrapper-depths", ok, f"_safe_log_var_i: vmap depth {depth(d1)}, _safe_log_var: depth {depth(d2)}; in_axes {d1.args[1]} / {d2.args[1]}",
-          "" if ok else "the single wrapper maps one leading axis, the double wrapper two; bounds are never mapped", loc(repo.cls(ENS)._module, _m(repo, ENS, "__init__")))
     # ts_inf call site
     q = "rl_blox.algorithm.pets.ts_inf"
     fn = repo.func(q)
+    _literal_axes(repo, fn._module, fn, q)
+    p_key, p_idx, p_acts, p_obs = _roles(fn, 4, q)      # recorded: key, model_idx, acts, obs, dynamics_model
     se2 = ShapeEngine(repo, max_depth=5)
     se2.merge_out = ["O", "O"]
     se2.class_self[ENS] = attrs
-    se2.analyse(fn, fn._module, q, {"key": (), "model_idx": (), "acts": ("H", "A"), "obs": ("O",)}, {}, 0, {})
+    se2.analyse(fn, fn._module, q, {p_key: (), p_idx: (), p_acts: ("H", "A"), p_obs: ("O",)}, {}, 0, {})
     shared = [a for a in se2.alarms if a[2] == "shared-draw"]
     ck.ob("R1-one-variance-per-output", q, "independent-noise-per-dimension", not shared, "random draws in the particle propagation", "" if not shared else "; ".join(a[3] for a in shared)[:300] + " (the member distribution is a diagonal Gaussian with independent dimensions)", loc(fn._module, fn))
     bad = [a for a in se2.alarms if a[2] != "shared-draw"]
     ck.ob("R1-one-variance-per-output", q, "member-query-rank", not bad, f"base_distribution(hstack((obs (O,), act (A,)))...) ; alarms {[a[2] for a in bad]}",
           "" if not bad else "; ".join(a[3] for a in bad)[:300], loc(fn._module, fn))
-    # the two vmaps of ts_inf
-    decs = [ast.unparse(d) for d in fn.decorator_list]
-    ok = any("in_axes=(0, None, 0, None, None)" in d for d in decs) and any("in_axes=(0, 0, None, None, None)" in d for d in decs)
-    ck.ob("R1-one-variance-per-output", q, "vmap-axes", ok, f"{[d[:60] for d in decs]}", "" if ok else "outer vmap over samples (keys, actions), inner over particles (keys, model indices)", loc(fn._module, fn))
+    # the two vmaps of ts_inf: read from the decorators (literal axes, see _literal_axes), outer = samples, inner = particles
+    axes = []
+    for d in fn.decorator_list:
+        ax = _vmap_axes(repo, fn._module, d)
+        if ax is not None:
+            if ax[0] is None or (ax[1] is not None and ast.literal_eval(ax[1]) != 0):
+                raise AnalysisError(f"{q}: vmap `{short(d, 60)}` without in_axes / with out_axes (unrecognised form)")
+            v = ast.literal_eval(ax[0])
+            axes.append(tuple(v) if isinstance(v, (tuple, list)) else v)
+    if len(axes) != 2:
+        raise AnalysisError(f"{q}: {len(axes)} vmap decorators found, the sample / particle mapping is applied elsewhere (unrecognised form)")
+    ok = sorted(axes, key=repr) == sorted([(0, None, 0, None, None), (0, 0, None, None, None)], key=repr)
+    ck.ob("R1-one-variance-per-output", q, "vmap-axes", ok, f"in_axes {axes}", "" if ok else "outer vmap over samples (keys, actions), inner over particles (keys, model indices)", loc(fn._module, fn))
+    # the wrappers map the data only: a mapped bound pairs bound j with sample j.  (How many axes a wrapper strips is decided by the shapes above:
+    # the bounding function is element-wise, so a wrapper of another depth that yields the documented shapes yields the documented values.)
+    init = _m(repo, ENS, "__init__")
+    bf, _bmi = _bounding_function(repo, init)
+    depth = lambda f: 0 if f.kind != "vmap" else 1 + depth(f.args[0])
+    chain = lambda f: [] if f.kind != "vmap" else [f.args[1]] + chain(f.args[0])
+    inner = lambda f: f if f.kind != "vmap" else inner(f.args[0])
+    wrappers = {k: v[1] for k, v in attrs.items() if isinstance(v, tuple) and len(v) == 2 and v[0] == "fn" and isinstance(v[1], Fn) and v[1].kind == "vmap" and inner(v[1]).kind == "def" and inner(v[1]).args[0] is bf}
+    if not wrappers:
+        raise AnalysisError(f"{ENS}.__init__: no attribute holds a vmap of the bounding function `{bf.name}` (unrecognised form)")
+    maps_bound = lambda ax: (isinstance(ax, int) and not isinstance(ax, bool)) or (isinstance(ax, (tuple, list)) and any(a is not None for a in list(ax)[1:3]))
+    ok = not any(maps_bound(ax) for w in wrappers.values() for ax in chain(w))
+    ck.ob("R1-one-variance-per-output", ENS + ".__init__", "wrapper-depths", ok, "; ".join(f"{k}: vmap depth {depth(w)}, in_axes {chain(w)}" for k, w in sorted(wrappers.items())),
+          "" if ok else "the wrappers map the leading axes of the log-variance; the bounds (one per output) are never mapped", loc(init._module, init))
 
 
 def r2_r3_formulas(ck, repo, nf):
-    fn = _m(repo, ENS, "aggregate")
+    site = ENS + ".aggregate"
+    fn = _spelled(ck, repo, _m(repo, ENS, "aggregate"))
     mi = fn._module
-    cfg = nf.cfg_of(fn)
-    sc = Scope(cfg, mi, {"x": Poly.atom("x", {"x"}, {"x"})}, ENS + ".aggregate", self_class=ENS)
-    rets = [n for n in cfg.nodes if n.kind == "stmt" and isinstance(n.ast, ast.Return)]
-    got = nf.poly(rets[0].ast.value, sc, rets[0].id)
-    F = "self._forward_ensemble(self.ensemble, x)"
-    ssc = Scope(None, mi, sc.env, "spec", self_class=ENS)
-    w0 = nf.poly(parse_expr(f"jnp.mean({F}[0], axis=0)"), ssc, None)
-    wv = nf.poly(parse_expr(f"jnp.var({F}[0], axis=0)"), ssc, None)
-    raw_lv = nf.poly(parse_expr(f"{F}[1]"), ssc, None)
-    ck.need(got.elems is not None and len(got.elems) == 2, f"{ENS}.aggregate: must return (mean, variance)")
+    (px,) = _roles(fn, 1, site, skip_self=True)      # recorded: x
+    env = {px: Poly.atom(px, {px}, {px})}
+    got, _ret = _returned(nf, fn, mi, env, site, self_class=ENS)
+    # the joint forward pass: the attribute that maps the member forward over the members with the input shared (in_axes (0, None)), whatever its name
+    init0 = _m(repo, ENS, "__init__")
+    shared = [st.targets[0].attr for st in ast.walk(init0) if isinstance(st, ast.Assign) and len(st.targets) == 1 and isinstance(st.targets[0], ast.Attribute) and dotted(st.targets[0].value) == "self"
+              and (_vmap_axes(repo, init0._module, st.value) or (None,))[0] is not None and ShapeEngine.lit(_vmap_axes(repo, init0._module, st.value)[0], None) in ((0, None), [0, None])]
+    F = f"self.{shared[0] if len(shared) == 1 else '_forward_ensemble'}(self.ensemble, x)"
+    senv = {"x": env[px]}
+    w0 = _spec(nf, repo, mi, f"jnp.mean({F}[0], axis=0)", senv, ENS)
+    wv = _spec(nf, repo, mi, f"jnp.var({F}[0], axis=0)", senv, ENS)
+    raw_lv = _spec(nf, repo, mi, f"{F}[1]", senv, ENS)
+    ck.need(got.elems is not None and len(got.elems) == 2, f"{site}: must return (mean, variance) (unrecognised form)")
+    init = _m(repo, ENS, "__init__")
+    imi = init._module
+    own = {t.attr for st in ast.walk(init) if isinstance(st, (ast.Assign, ast.AnnAssign)) for t in (st.targets if isinstance(st, ast.Assign) else [st.target]) if isinstance(t, ast.Attribute) and dotted(t.value) == "self"}
+    BOUNDS = ("exp", "mean", "var", "min_log_var", "max_log_var", "axis", "softplus") + tuple(sorted(own))      # the wrappers are attributes of the object, whatever they are called
     ok0 = got.elems[0] == w0
+    if not ok0 and (_unread(got.elems[0]) or not same_ingredients(got.elems[0], w0)):
+        raise AnalysisError(f"{site}: mean `{got.elems[0].canon()[:110]}` (unrecognised form)")
     # variance = mean over members of exp(bounded log-variance) + variance over members of the means; the bounding function is
     # whatever the class applies to the raw log-variance (its form is R3), here only its position in the formula matters
+    if _unread(got.elems[1]) or not same_ingredients(got.elems[1], wv + raw_lv, BOUNDS):
+        raise AnalysisError(f"{site}: variance `{got.elems[1].canon()[:120]}` (unrecognised form)")
     rest = got.elems[1] - wv
     ok1, why1 = False, ""
     m_mean = nf.meta.get(rest.single_atom() or "", {})
@@ -189,225 +479,440 @@ def r2_r3_formulas(ck, repo, nf):
             elif mx and any(a_ == raw_lv for a_ in mx.get("args", [])):
                 ok1 = True
             else:
-                raise AnalysisError(f"{ENS}.aggregate: exponent `{X.canon()[:80]}` is not a bounded form of the members' log-variance (unrecognised form)")
+                # the bounding written out in place (a method / helper that was expanded): it must be the documented two-stage soft bound
+                wb = _spec(nf, repo, mi, f"self.min_log_var + nnx.softplus(self.max_log_var - nnx.softplus(self.max_log_var - {F}[1]) - self.min_log_var)", senv, ENS)
+                if X == wb:
+                    ok1 = True
+                elif same_ingredients(X, wb):
+                    why1 = f"the log-variance is bounded by `{X.canon()[:90]}`, not by min + softplus(max - softplus(max - lv) - min)"
+                else:
+                    raise AnalysisError(f"{site}: exponent `{X.canon()[:80]}` is not a bounded form of the members' log-variance (unrecognised form)")
         else:
             why1 = "the member variances are not exp(log-variance)"
-    elif not same_ingredients(got.elems[1], wv + raw_lv, ("exp", "mean", "min_log_var", "max_log_var", "_safe_log_var", "_safe_log_var_i")):
-        raise AnalysisError(f"{ENS}.aggregate: variance `{got.elems[1].canon()[:120]}` (unrecognised form)")
     else:
         why1 = "the variance is not mean_0(exp(lv)) + var_0(mu)"
     ok = ok0 and ok1
-    ck.ob("R2-aggregate", ENS + ".aggregate", "law-of-total-variance", ok, f"({got.canon()[:170]}", "" if ok else f"must return (mean_0(mu), mean_0(exp(lv)) + var_0(mu)) over the member axis 0{': ' + why1 if why1 else ''}", loc(mi, fn))
-    # soft bounding: nested def in __init__
-    init = _m(repo, ENS, "__init__")
-    sl = next((n for n in ast.walk(init) if isinstance(n, ast.FunctionDef) and n.name == "safe_log_var"), None)
-    ck.need(sl is not None, f"{ENS}.__init__: safe_log_var not found")
-    sl._module = mi
-    c2 = nf.cfg_of(sl)
-    e2 = {p: Poly.atom(p, {p}, {p}) for p in positional_params(sl)}
-    s2 = Scope(c2, mi, e2, "safe_log_var")
-    r2 = [n for n in c2.nodes if n.kind == "stmt" and isinstance(n.ast, ast.Return)]
-    g2 = nf.poly(r2[0].ast.value, s2, r2[0].id)
-    w2 = nf.poly(parse_expr("min_log_var + nnx.softplus(max_log_var - nnx.softplus(max_log_var - log_var) - min_log_var)"), Scope(None, mi, e2, "spec"), None)
-    ck.ob("R3-nll", ENS + ".__init__.<locals>.safe_log_var", "soft-bounds", g2 == w2, f"{g2.canon()[:150]}", "" if g2 == w2 else f"must be min + softplus(max - softplus(max - lv) - min): `{w2.canon()}`", loc(mi, sl))
+    ck.ob("R2-aggregate", site, "law-of-total-variance", ok, f"({got.canon()[:170]}", "" if ok else f"must return (mean_0(mu), mean_0(exp(lv)) + var_0(mu)) over the member axis 0{': ' + why1 if why1 else ''}", loc(mi, fn))
+    # soft bounding: the function that the wrappers map (found through the vmaps, not by its name)
+    sl, imi = _bounding_function(repo, init)
+    ssite = ENS + ".__init__.<locals>.safe_log_var"
+    sl = _spelled(ck, repo, sl, imi)
+    e2 = _env(sl)
+    g2, _r2 = _returned(nf, sl, imi, e2, ssite)
+    w2 = _spec(nf, repo, imi, "min_log_var + nnx.softplus(max_log_var - nnx.softplus(max_log_var - log_var) - min_log_var)", _spec_env(sl, ("log_var", "min_log_var", "max_log_var"), ssite))
+    _decide(ck, "R3-nll", ssite, "soft-bounds", g2, w2, f"{g2.canon()[:150]}", f"must be min + softplus(max - softplus(max - lv) - min): `{w2.canon()}`", loc(imi, sl))
     for attr, lo, hi in (("min_log_var", "-20.0", "0.0"), ("max_log_var", "-4.0", "5.0")):
-        p = _m(repo, ENS, attr)
-        rr = [n for n in ast.walk(p) if isinstance(n, ast.Return)]
-        ok = ast.unparse(rr[0].value) == f"constrained_param(self.raw_{attr}.value, {lo}, {hi})"
-        ck.ob("R3-nll", f"{ENS}.{attr}", "constrained", ok, f"return {ast.unparse(rr[0].value)}", "" if ok else f"bound must be constrained_param(raw, {lo}, {hi}) (finite by construction)", loc(mi, p))
-    q = PE + "constrained_param"
-    f = repo.func(q)
-    g = nf.return_poly(q, _env(f))
-    w = nf.poly(parse_expr("min_val + (max_val - min_val) * jax.nn.sigmoid(x)"), Scope(None, f._module, _env(f), q), None)
-    ck.ob("R3-nll", q, "sigmoid-interval", g == w, g.canon(), "" if g == w else "must be min + (max - min) * sigmoid(x)", loc(f._module, f))
-    q = PE + "gaussian_nll"
-    f = repo.func(q)
-    g = nf.return_poly(q, _env(f))
-    w = nf.poly(parse_expr("jnp.mean(0.5 * (mean_pred - Y) ** 2 * jnp.exp(-log_var_pred)) + 0.5 * jnp.mean(log_var_pred)"), Scope(None, f._module, _env(f), q), None)
-    ck.ob("R3-nll", q, "closed-form", g == w, g.canon()[:150], "" if g == w else f"must be mean(0.5 (mu-y)^2 exp(-lv)) + 0.5 mean(lv): difference `{(g - w).canon()[:120]}`", loc(f._module, f))
+        p = _spelled(ck, repo, _m(repo, ENS, attr))
+        psite = f"{ENS}.{attr}"
+        gp, _rp = _returned(nf, p, p._module, {}, psite, self_class=ENS)
+        wp = _spec(nf, repo, repo.func(PE + "constrained_param")._module, f"constrained_param(self.raw_{attr}.value, {lo}, {hi})", {}, ENS)
+        _decide(ck, "R3-nll", psite, "constrained", gp, wp, f"return {gp.canon()[:120]}", f"bound must be constrained_param(raw, {lo}, {hi}) (finite by construction)", loc(p._module, p), extra=("constrained_param",))
+    for q, recorded, text, key, why in (
+            (PE + "constrained_param", ("x", "min_val", "max_val"), "min_val + (max_val - min_val) * jax.nn.sigmoid(x)", "sigmoid-interval", "must be min + (max - min) * sigmoid(x)"),
+            (PE + "gaussian_nll", ("mean_pred", "log_var_pred", "Y"), "jnp.mean(0.5 * (mean_pred - Y) ** 2 * jnp.exp(-log_var_pred)) + 0.5 * jnp.mean(log_var_pred)", "closed-form", "must be mean(0.5 (mu-y)^2 exp(-lv)) + 0.5 mean(lv)")):
+        f = _spelled(ck, repo, repo.func(q))
+        g, _r = _returned(nf, f, f._module, _env(f), q)
+        w = _spec(nf, repo, f._module, text, _spec_env(f, recorded, q))
+        g, w = _exp_merged(nf, g), _exp_merged(nf, w)
+        _decide(ck, "R3-nll", q, key, g, w, g.canon()[:150], f"{why}: difference `{(g - w).canon()[:120]}`", loc(f._module, f))
     q = PE + "gaussian_ensemble_loss"
-    f = repo.func(q)
+    f = _spelled(ck, repo, repo.func(q))
     nf2 = NF(repo, inline_depth=1, no_inline={PE + "gaussian_nll"})
-    g = nf2.return_poly(q, _env(f))
-    w = nf2.poly(parse_expr("gaussian_nll(model(X)[0], model(X)[1], Y).sum() + 0.01 * (model.max_log_var.sum() - model.min_log_var.sum())"), Scope(None, f._module, _env(f), q), None)
-    ck.ob("R3-nll", q, "nll-plus-boundary-penalty", g == w, g.canon()[:150], "" if g == w else f"must be sum(nll(mean, log_var, Y)) + 0.01*(sum(max_lv) - sum(min_lv))", loc(f._module, f))
+    g, _r = _returned(nf2, f, f._module, _env(f), q)
+    w = _spec(nf2, repo, f._module, "gaussian_nll(model(X)[0], model(X)[1], Y).sum() + 0.01 * (model.max_log_var.sum() - model.min_log_var.sum())", _spec_env(f, ("model", "X", "Y"), q))
+    _decide(ck, "R3-nll", q, "nll-plus-boundary-penalty", g, w, g.canon()[:150], "must be sum(nll(mean, log_var, Y)) + 0.01*(sum(max_lv) - sum(min_lv))", loc(f._module, f))
+
+
+def _deref(cfg, e, at, depth=0):
+    """(expression, node where it is evaluated): a local name with one reaching plain assignment stands for the assigned expression."""
+    while isinstance(e, ast.Name) and depth < 10:
+        ds = cfg.defs_of(at, e.id)
+        if len(ds) != 1 or ds[0].kind != "assign" or ds[0].value is None:
+            break
+        e, at, depth = ds[0].value, ds[0].node, depth + 1
+    return e, at
+
+
+def _array_op(repo, mi, e, names):
+    """`recv.<op>(*args)` or `jnp.<op>(recv, *args)` for op in names -> (op, recv, args, keywords) else None."""
+    if not isinstance(e, ast.Call) or not isinstance(e.func, ast.Attribute) or e.func.attr not in names or any(k.arg is None for k in e.keywords) or any(isinstance(a, ast.Starred) for a in e.args):
+        return None
+    kws = {k.arg: k.value for k in e.keywords}
+    r = repo.resolve_expr(mi, e.func)
+    if r and r.startswith(_NP):
+        recv = e.args[0] if e.args else kws.pop("a", kws.pop("x", None))
+        return (e.func.attr, recv, list(e.args[1:]), kws) if recv is not None else None
+    return e.func.attr, e.func.value, list(e.args), kws
+
+
+def _display(args, kws, *names):
+    """Elements of a shape / axes argument given as one tuple / list, as separate arguments or under a keyword; None when it is not a display."""
+    a = list(args)
+    for n in names:
+        if n in kws:
+            a = a + [kws[n]]
+    if len(a) == 1 and isinstance(a[0], (ast.Tuple, ast.List)):
+        a = list(a[0].elts)
+    if not a or any(isinstance(x, (ast.Starred, ast.Tuple, ast.List)) for x in a):
+        return None
+    return a
+
+
+def _closed(cfg, e, at, matrices, depth=0):
+    """Copy of a scalar expression with its local names replaced by what they stand for (see _deref); every name of the index matrix (the
+    bootstrap matrix and its per-epoch permutations all have its shape) is written IDX, its row length IDX.shape[1]."""
+    from ..expand import clone
+
+    class T(ast.NodeTransformer):
+        def visit_Name(self, n):
+            if n.id in matrices:
+                return ast.copy_location(ast.Name(id="IDX", ctx=ast.Load()), n)
+            if depth < 8 and isinstance(n.ctx, ast.Load):
+                v, at2 = _deref(cfg, n, at)
+                if v is not n and not isinstance(v, ast.Name):
+                    return _closed(cfg, v, at2, matrices, depth + 1)
+                ds = cfg.defs_of(at2, v.id)
+                if len(ds) == 1 and ds[0].kind == "unpack" and len(ds[0].path) == 1 and isinstance(ds[0].path[0], int) and ds[0].value is not None:      # a, b = t  ->  b is t[1]
+                    return _closed(cfg, ast.copy_location(ast.Subscript(value=ds[0].value, slice=ast.Constant(value=ds[0].path[0]), ctx=ast.Load()), n), ds[0].node, matrices, depth + 1)
+                return v if v.id not in matrices else ast.copy_location(ast.Name(id="IDX", ctx=ast.Load()), n)
+            return n
+
+        def visit_Subscript(self, n):
+            self.generic_visit(n)
+            if isinstance(n.value, ast.Attribute) and n.value.attr == "shape" and isinstance(n.value.value, ast.Name) and n.value.value.id == "IDX" \
+                    and isinstance(n.slice, ast.UnaryOp) and isinstance(n.slice.op, ast.USub) and isinstance(n.slice.operand, ast.Constant) and n.slice.operand.value == 1:
+                n.slice = ast.copy_location(ast.Constant(value=1), n.slice)      # the index matrix is (n_ensemble, n): its last axis is axis 1
+            return n
+    return ast.fix_missing_locations(T().visit(clone(e)))
 
 
 def r4_bootstraps(ck, repo, nf):
     q = PE + "bootstrap"
-    f = repo.func(q)
-    g = nf.return_poly(q, _env(f)).canon()
-    w = nf.poly(parse_expr("jax.random.choice(key, n_samples, shape=(n_ensemble, int(train_size * n_samples)), replace=True)"), Scope(None, f._module, _env(f), q), None).canon()
-    ck.ob("R4-bootstraps", q, "index-matrix", g == w, g, "" if g == w else f"must be {w}: one row of indices (with replacement) per member", loc(f._module, f))
+    f = _spelled(ck, repo, repo.func(q))
+    g, _r = _returned(nf, f, f._module, _env(f), q)
+    senv = _spec_env(f, ("n_ensemble", "train_size", "n_samples", "key"), q)
+    wants = [_spec(nf, repo, f._module, t, senv) for t in ("jax.random.choice(key, n_samples, shape=(n_ensemble, int(train_size * n_samples)), replace=True)", "jax.random.choice(key, n_samples, shape=(n_ensemble, int(train_size * n_samples)))")]      # replace=True is the default
+    _decide(ck, "R4-bootstraps", q, "index-matrix", g, wants, g.canon(), f"must be {wants[0].canon()}: one row of indices (with replacement) per member", loc(f._module, f), extra=("replace",))
     q = PE + "train_ensemble"
     f = repo.func(q)
     mi = f._module
     cfg = nf.cfg_of(f)
-    loops = [n for n in cfg.nodes if n.kind == "for"]
-    ck.need(len(loops) == 1, f"{q}: epoch loop not found")
-    lp = loops[0]
-    sc = Scope(cfg, mi, _env(f), q)
-    call = next((c for n in cfg.nodes if n.ast is not None and n.kind == "stmt" for c in ast.walk(n.ast) if isinstance(c, ast.Call) and dotted(c.func) == "train_epoch"), None)
-    ck.need(call is not None, f"{q}: train_epoch call not found")
-    at = cfg.node_of(call).id
+    MODEL, OPT, TS, PX, PY, _NE, BS, _KEY = _roles(f, 8, q)      # recorded: model, optimizer, train_size, X, Y, n_epochs, batch_size, key
+    env = _env(f)
+    sc = Scope(cfg, mi, env, q)
     tef = repo.func(PE + "train_epoch")
+    calls = [c for n in cfg.nodes if n.ast is not None and n.kind == "stmt" for c in ast.walk(n.ast) if isinstance(c, ast.Call) and isinstance(c.func, (ast.Name, ast.Attribute)) and repo.resolve_expr(mi, c.func) == PE + "train_epoch"]
+    ck.need(len(calls) == 1, f"{q}: {len(calls)} train_epoch calls found (unrecognised form)")
+    call = calls[0]
+    at = cfg.node_of(call).id
+    epochs = cfg.enclosing_loops(at)
+    ck.need(epochs, f"{q}: epoch loop not found (unrecognised form)")
+    ck.need(not any(isinstance(a, ast.Starred) for a in call.args) and not any(k.arg is None for k in call.keywords), f"{q}: train_epoch is called with star arguments (unrecognised form)")
     tb = bind_call(tef, call)
-    tp = positional_params(tef)
-    got_args = {k: (nf.poly(v, sc, at).canon() if v is not None and not isinstance(v, list) else None) for k, v in tb.items()}
-    ok_args = len(tp) >= 5 and [got_args.get(tp[i]) for i in range(4)] == ["model", "optimizer", "X", "Y"] and isinstance(tb.get(tp[4]), ast.Name)
-    if not ok_args and not isinstance(tb.get(tp[4]) if len(tp) > 4 else None, ast.Name):
-        raise AnalysisError(f"{q}: the index argument of train_epoch is not a variable (unrecognised idiom)")
-    ck.ob("R4-bootstraps", q, "train-epoch-arguments", ok_args, f"train_epoch({got_args})", "" if ok_args else "members must be trained on (X, Y) through the batched bootstrap indices", loc(mi, call))
-    bname = tb[tp[4]].id
-    # batched indices: reshape / transpose of the (possibly truncated) permutation
-    bi = cfg.defs_of(at, bname)
-    ck.need(len(bi) == 1 and bi[0].value is not None, f"{q}: `{bname}` has {len(bi)} definitions")
-    btxt = ast.unparse(bi[0].value)
-    bsc = Scope(cfg, mi, _env(f), q)
-    bsc.opaque_names = {"shuffled_indices"}
-    # structural reading of  <perm>.reshape(d0, d1, d2).transpose(p):  the member axis stays the leading reshape axis (never merged with
-    # another axis), is moved to position 1, the scanned axis 0 is the batch number and the last axis has batch_size entries
-    bv = bi[0].value
+    tp = _roles(tef, 5, PE + "train_epoch")      # recorded: model, optimizer, X, Y, indices
+    if any(tb.get(p) is None or isinstance(tb.get(p), list) for p in tp):
+        raise AnalysisError(f"{q}: train_epoch call `{short(call, 80)}` does not bind {tp} (unrecognised form)")
+    gota = [nf.poly(tb[p], sc, at) for p in tp[:4]]
+    wanta = [env[MODEL], env[OPT], env[PX], env[PY]]
+    ok_args = gota == wanta
+    if not ok_args and any(_unread(g_) or not same_ingredients(g_, wanta[0] + wanta[1] + wanta[2] + wanta[3]) for g_ in gota):
+        raise AnalysisError(f"{q}: train_epoch arguments `{[g_.canon()[:40] for g_ in gota]}` (unrecognised form)")
+    ck.ob("R4-bootstraps", q, "train-epoch-arguments", ok_args, f"train_epoch({', '.join(g_.canon()[:40] for g_ in gota)}, ...)", "" if ok_args else "members must be trained on (X, Y) through the batched bootstrap indices", loc(mi, call))
+    # batched indices: <matrix>.reshape(d0, d1, d2).transpose(p) read through local names: the member axis stays the leading reshape axis (never
+    # merged with another axis), is moved to position 1, and the last axis has batch_size entries (the scanned axis 0 is the batch number)
+    bv, bat = _deref(cfg, tb[tp[4]], at)
+    btxt = short(bv, 100)
+    tr = _array_op(repo, mi, bv, ("transpose", "permute_dims"))
+    rs_e, rs_at = _deref(cfg, tr[1], bat) if tr else (bv, bat)
+    rs = _array_op(repo, mi, rs_e, ("reshape",))
+    resized = any(isinstance(x, ast.Call) and isinstance(x.func, (ast.Name, ast.Attribute)) and (repo.resolve_expr(mi, x.func) or dotted(x.func)).endswith("resize") for e_ in (bv, rs_e) for x in ast.walk(e_))
+    if rs is None and not resized:
+        raise AnalysisError(f"{q}: batching of the bootstrap indices `{btxt[:80]}` is not a reshape + transpose this check can read")
+    src = rs[1] if rs else next(x.args[0] for e_ in (bv, rs_e) for x in ast.walk(e_) if isinstance(x, ast.Call) and isinstance(x.func, (ast.Name, ast.Attribute)) and (repo.resolve_expr(mi, x.func) or dotted(x.func)).endswith("resize") and x.args)
+    # the per-epoch pipeline behind the reshaped matrix: permutation (one per epoch), at most one column truncation, copies through local names
+    shuffles, truncs, matrices, unread, seen = [], [], set(), [], set()
+
+    def walk(e, at_, depth=0):
+        if depth > 12:
+            unread.append(e)
+        elif isinstance(e, ast.Name):
+            ds = cfg.defs_of(at_, e.id)
+            matrices.add(e.id)
+            if not ds or any(d.kind != "assign" or d.value is None for d in ds):
+                unread.append(e)
+            for d in ds:
+                if (d.node, d.name) not in seen and d.kind == "assign" and d.value is not None:
+                    seen.add((d.node, d.name))
+                    walk(d.value, d.node, depth + 1)
+        elif isinstance(e, ast.Subscript):
+            truncs.append((e, at_))
+            walk(e.value, at_, depth + 1)
+        elif isinstance(e, ast.Call) and isinstance(e.func, (ast.Name, ast.Attribute)) and repo.resolve_expr(mi, e.func) in ("jax.random.permutation", "jax.random.choice", "jax.random.shuffle", "numpy.random.permutation"):
+            shuffles.append((e, at_, repo.resolve_expr(mi, e.func)))
+        elif isinstance(e, ast.Call) and isinstance(e.func, (ast.Name, ast.Attribute)) and repo.resolve_expr(mi, e.func) in ("jax.numpy.asarray", "jax.numpy.array", "numpy.asarray", "jax.numpy.copy") and len(e.args) == 1 and not e.keywords:
+            walk(e.args[0], at_, depth + 1)
+        else:
+            unread.append(e)
+    walk(src, rs_at)
+    if unread or not shuffles:
+        raise AnalysisError(f"{q}: the per-epoch index pipeline behind `{short(src, 40)}` contains `{short(unread[0], 50) if unread else 'no shuffle'}` (unrecognised form)")
+    # permutation along axis 1 of the bootstrap matrix
+    boot_names, bad, shown = set(), "", []
+    for c_, n_, r_ in shuffles:
+        shown.append(short(c_, 70))
+        if any(isinstance(a, ast.Starred) for a in c_.args) or any(k.arg is None for k in c_.keywords):
+            raise AnalysisError(f"{q}: `{short(c_, 60)}` (unrecognised form)")
+        kw_ = {k.arg: k.value for k in c_.keywords}
+        sig = ["key", "x", "axis", "independent"] if r_.endswith("permutation") else ["key", "a", "shape", "replace", "p", "axis"]
+        b_ = {**dict(zip(sig, c_.args)), **kw_}
+        x_ = b_.get("x" if r_.endswith("permutation") else "a")
+        if not isinstance(x_, ast.Name):
+            raise AnalysisError(f"{q}: `{short(c_, 60)}` does not shuffle a named index matrix (unrecognised form)")
+        boot_names.add((x_.id, n_))
+        if r_.endswith("choice"):
+            rep = b_.get("replace")
+            if rep is not None and not (isinstance(rep, ast.Constant) and rep.value is True):
+                raise AnalysisError(f"{q}: `{short(c_, 60)}`: a draw that may be without replacement (unrecognised form)")
+            bad = bad or "the epoch's indices are drawn with replacement from the member's row: an index can be visited several times per epoch"
+            continue
+        if not r_.endswith("permutation"):
+            raise AnalysisError(f"{q}: `{short(c_, 60)}` (unrecognised form)")
+        ax = nf.poly(b_["axis"], sc, n_).const_value() if b_.get("axis") is not None else 0
+        if ax is None:
+            raise AnalysisError(f"{q}: permutation axis `{short(b_['axis'], 30)}` is not a constant (unrecognised form)")
+        if ax not in (1, -1):
+            bad = bad or f"permutation along axis {ax} of the (member, sample) matrix exchanges the rows of the members instead of shuffling every member's own row"
+    if not bad and len(shuffles) != 1:
+        raise AnalysisError(f"{q}: {len(shuffles)} shuffles reach the batching `{shown[:2]}` (unrecognised form)")
+    ck.ob("R4-bootstraps", q, "permutation-per-epoch", not bad, "; ".join(shown)[:160], bad and bad + " (each epoch must visit a permutation of every member's own bootstrap row: permutation(key, bootstrap_indices, axis=1))", loc(mi, shuffles[0][0]))
+    ck.note("train_ensemble shuffles with the carried key (`shuffle_key` is unused): deterministic, not a C17 obligation")
+    boot_defs = {}
+    for nm, n_ in sorted(boot_names):      # the shuffled matrix, through copies, down to the statement that draws it
+        e_, at_ = ast.Name(id=nm, ctx=ast.Load()), n_
+        for _ in range(10):
+            matrices.add(e_.id)
+            ds = cfg.defs_of(at_, e_.id)
+            if len(ds) == 1 and ds[0].kind == "assign" and isinstance(ds[0].value, ast.Name):
+                e_, at_ = ds[0].value, ds[0].node
+                continue
+            for d in ds:
+                boot_defs[(d.node, d.name)] = d
+            break
+    BSc = env[BS].canon()
+    # reshape / transpose layout
     okm, whym = None, ""
-    tr, rs = None, None
-    if isinstance(bv, ast.Call) and isinstance(bv.func, ast.Attribute) and bv.func.attr in ("transpose",) and isinstance(bv.func.value, ast.Call) and isinstance(bv.func.value.func, ast.Attribute) and bv.func.value.func.attr == "reshape":
-        tr, rs = bv, bv.func.value
-    elif isinstance(bv, ast.Call) and dotted(bv.func) in ("jnp.transpose", "jnp.permute_dims") and bv.args and isinstance(bv.args[0], ast.Call) and isinstance(bv.args[0].func, ast.Attribute) and bv.args[0].func.attr == "reshape":
-        tr, rs = bv, bv.args[0]
-    if tr is not None:
-        dims = [nf.poly(a, bsc, bi[0].node).canon() for a in (rs.args if not (len(rs.args) == 1 and isinstance(rs.args[0], (ast.Tuple, ast.List))) else rs.args[0].elts)]
-        pargs = tr.args[1:] if dotted(tr.func) in ("jnp.transpose", "jnp.permute_dims") else tr.args
-        if len(pargs) == 1 and isinstance(pargs[0], (ast.Tuple, ast.List)):
-            pargs = pargs[0].elts
-        try:
-            perm = [ast.literal_eval(a) for a in pargs]
-        except Exception:
-            perm = None
-        if perm is not None and len(dims) == 3 and len(perm) == 3:
-            lead_ok = dims[0] in ("model.n_ensemble", "n_ensemble")
-            okm = lead_ok and perm[1] == 0 and dims[perm[2]] == "batch_size" and dims[perm[0]] == "-1"
-            if not lead_ok:
-                whym = f"the leading reshape axis is `{dims[0]}`, not the member axis: bootstrap rows of different members are merged, members see each other's samples"
-            elif not okm:
-                whym = f"after reshape{tuple(dims)} and transpose{tuple(perm)} the layout is not (batch number, member, batch_size)"
-    if okm is None and isinstance(bv, ast.Call) and isinstance(bv.func, ast.Attribute) and bv.func.attr == "reshape":
-        dims = [nf.poly(a, bsc, bi[0].node).canon() for a in (bv.args if not (len(bv.args) == 1 and isinstance(bv.args[0], (ast.Tuple, ast.List))) else bv.args[0].elts)]
-        if dims and dims[0] not in ("model.n_ensemble", "n_ensemble"):
-            okm, whym = False, f"reshape{tuple(dims)} of the (member, sample) index matrix does not keep the member axis leading: rows of different members are merged into one batch axis, members see each other's bootstrap samples"
-    if okm is None and any(isinstance(x, ast.Call) and (dotted(x.func) or "").endswith("resize") for x in ast.walk(bv)):
+    if rs is not None:
+        dexp = _display(rs[2], rs[3], "shape", "newshape")
+        msc = Scope(cfg, mi, env, q)
+        msc.opaque_names = set(matrices)
+        member_forms = {nf.poly(parse_expr(f"{MODEL}.n_ensemble"), Scope(None, mi, env, q), None).canon()} | {t.format(m) for m in matrices for t in ("{}.shape[0]", "len({})")}
+
+        def kind(e):
+            c = nf.poly(e, msc, rs_at).canon()
+            return "member" if c in member_forms else "batch" if c == BSc else "rest" if c == "-1" else ("?", c)
+        dims = [kind(e) for e in dexp] if dexp is not None else None
+        if tr is not None:
+            pexp = _display(tr[2], tr[3], "axes")
+            try:
+                perm = [ast.literal_eval(a) for a in pexp] if pexp is not None else None
+            except Exception:
+                perm = None
+            if dims is not None and perm is not None and len(dims) == 3 and sorted(perm) == [0, 1, 2]:
+                okm = dims[0] == "member" and perm[1] == 0 and dims[perm[2]] == "batch"
+                if not okm and any(isinstance(d, tuple) for d in dims):
+                    raise AnalysisError(f"{q}: reshape{tuple(d if isinstance(d, str) else d[1] for d in dims)} of the index matrix (unrecognised form)")
+                if dims[0] != "member":
+                    whym = f"the leading reshape axis is the `{dims[0]}` axis, not the member axis: bootstrap rows of different members are merged, members see each other's samples"
+                elif not okm:
+                    whym = f"after reshape{tuple(dims)} and transpose{tuple(perm)} the layout is not (batch number, member, batch_size)"
+        elif dims and dims[0] != "member" and (dims[0] in ("rest", "batch") or "member" in dims[1:]):
+            okm, whym = False, f"reshape{tuple(d if isinstance(d, str) else d[1] for d in dims)} of the (member, sample) index matrix does not keep the member axis leading: rows of different members are merged into one batch axis, members see each other's bootstrap samples"
+    if okm is None and resized:
         # resize works on the *flattened* array: dropping the incomplete batch this way cuts every member row at the wrong offset
         okm, whym = False, "jnp.resize truncates the flattened (member, sample) matrix: unless the row length is a multiple of batch_size, the rows of members 1.. start inside the previous member's bootstrap sample"
     if okm is None:
         raise AnalysisError(f"{q}: batching of the bootstrap indices `{btxt[:80]}` is not a reshape + transpose this check can read")
-    ck.ob("R4-bootstraps", q, "member-axis-preserved", okm, f"{bname} = {btxt}", whym, loc(mi, bi[0].value))
-    sdefs = list(cfg.defs_of(bi[0].node, "shuffled_indices"))
-    for d in list(sdefs):  # an unconditional truncation hides the permutation it was applied to
-        if not (isinstance(d.value, ast.Call) and dotted(d.value.func).endswith("random.permutation")):
-            for d2 in cfg.defs_of(d.node, "shuffled_indices"):
-                if d2 not in sdefs:
-                    sdefs.append(d2)
-    perm = [d for d in sdefs if isinstance(d.value, ast.Call) and dotted(d.value.func).endswith("random.permutation")]
-    trunc = [d for d in sdefs if d not in perm]
-    if not perm and not sdefs:
-        raise AnalysisError(f"{q}: the per-epoch index pipeline (`shuffled_indices`) is not found (unrecognised form)")
-    if not perm and not any(isinstance(x, ast.Call) and ("permutation" in dotted(x.func) or "choice" in dotted(x.func) or "shuffle" in dotted(x.func)) for d_ in sdefs if d_.value is not None for x in ast.walk(d_.value)):
-        raise AnalysisError(f"{q}: no per-epoch shuffle is visible in `{[short(d_.value, 40) for d_ in sdefs if d_.value is not None][:2]}` (unrecognised form)")
-    ok = len(perm) == 1 and [dotted(a) for a in perm[0].value.args][1:] == ["bootstrap_indices"] and any(k.arg == "axis" and ast.unparse(k.value) == "1" for k in perm[0].value.keywords)
-    ck.ob("R4-bootstraps", q, "permutation-per-epoch", ok, f"{short(perm[0].value) if perm else None}", "" if ok else "each epoch must visit a permutation of every member's own bootstrap row (permutation(..., bootstrap_indices, axis=1)): each index at most once per epoch", loc(mi, f))
-    key_arg = dotted(perm[0].value.args[0]) if perm else ""
-    ck.note(f"train_ensemble shuffles with `{key_arg}` (the carried key; `shuffle_key` is unused): deterministic, not a C17 obligation")
-    # truncation to a multiple of batch_size
-    ok_t, why = False, "the truncation to complete batches was not found"
-    if len(trunc) == 1:
-        d = trunc[0]
-        v = d.value
-        if isinstance(v, ast.Subscript) and dotted(v.value) == "shuffled_indices" and isinstance(v.slice, ast.Tuple) and len(v.slice.elts) == 2 and isinstance(v.slice.elts[1], ast.Slice):
-            up = v.slice.elts[1].upper
-            usc = Scope(None, mi, {}, q)
-            isc = Scope(cfg, mi, {}, q)
-            isc.opaque_names = {"bootstrap_indices", "batch_size", "shuffled_indices"}
-            upc = nf.poly(up, isc, d.node).canon() if up is not None else ""
-            from ..sem import guard_literals
-            neg = upc == "-mod(bootstrap_indices.shape[1], batch_size)"
-            r_c = "mod(bootstrap_indices.shape[1], batch_size)"
-            gsc_lits = []
-            for b_, lab_ in cfg.control_deps(d.node):
-                if cfg.nodes[b_].kind == "test" and isinstance(cfg.nodes[b_].ast, ast.If):
-                    c_ = nf.poly(cfg.nodes[b_].ast.test, isc, b_).canon()
-                    gsc_lits.append(c_ if lab_ else f"not({c_})")
-            guarded = any(l in (r_c, upc, f"NotEq(0, {r_c})", f"NotEq(0, {upc})", f"Lt(0, {r_c})", f"LtE(1, {r_c})", f"Lt({upc}, 0)") for l in gsc_lits)
-            pos_forms = [nf.poly(parse_expr(t), usc, None).canon() for t in ("bootstrap_indices.shape[1] - bootstrap_indices.shape[1] % batch_size", "(bootstrap_indices.shape[1] // batch_size) * batch_size")]
-            pos_ok = upc in pos_forms
-            ok_t = (neg and guarded) or pos_ok
-            if neg and not guarded:
-                why = "`[:, :-r]` with r = n % batch_size is applied unconditionally: for r == 0 the slice is empty, the epoch has no batch and the members are not trained at all"
-            elif not ok_t:
-                why = f"columns kept up to `{upc}`: not the largest multiple of batch_size"
-    elif len(trunc) == 0:
+    ck.ob("R4-bootstraps", q, "member-axis-preserved", okm, f"indices = {btxt}", whym, loc(mi, bv))
+    # truncation to a multiple of batch_size: IDX[:, :up]
+    penv = {BS: env[BS]}
+    spec = lambda t: nf.poly(parse_expr(t.replace("B", BS)), Scope(None, mi, penv, q), None)
+    r_txt = "(IDX.shape[1] % B)"
+    ok_t, why = False, ""
+    if rs is None:
+        truncs, ok_t = [], None      # resize form: reported above, there is no column truncation to read
+    elif len(truncs) > 1:
+        raise AnalysisError(f"{q}: {len(truncs)} slicings of the index matrix `{[short(t_, 40) for t_, _ in truncs][:2]}` (unrecognised form)")
+    elif not truncs:
         why = "no truncation: reshape(n_ensemble, batch_size, -1) fails or mixes rows when the bootstrap size is not a multiple of batch_size"
-    ck.ob("R4-bootstraps", q, "truncate-to-complete-batches", ok_t, f"{[short(d.value, 60) for d in trunc]}", "" if ok_t else why, loc(mi, f))
-    bd = [d for d in cfg.defs_of(lp.id, "bootstrap_indices") if d.kind == "assign"]
-    okb = False
-    if len(bd) == 1 and isinstance(bd[0].value, ast.Call) and repo.resolve_expr(mi, bd[0].value.func) == PE + "bootstrap":
-        bb = bind_call(repo.func(PE + "bootstrap"), bd[0].value)
-        bp = positional_params(repo.func(PE + "bootstrap"))
-        gotb = [nf.poly(bb[p_], sc, bd[0].node).canon() if p_ in bb and not isinstance(bb[p_], list) else None for p_ in bp[:3]]
-        wantb = [nf.poly(parse_expr(t_), sc, bd[0].node).canon() for t_ in ("model.n_ensemble", "train_size", "len(X)")]
-        okb = gotb == wantb
-    ok = okb and lp.id not in cfg.enclosing_loops(bd[0].node)
-    ck.ob("R4-bootstraps", q, "bootstrap-once", ok, f"bootstrap_indices = {ast.unparse(bd[0].value) if bd else None}", "" if ok else "the bootstrap sample of each member is drawn once, before the epochs", loc(mi, f))
+    else:
+        v, tn = truncs[0]
+        el = list(v.slice.elts) if isinstance(v.slice, ast.Tuple) else []
+        rows_all = len(el) == 2 and ((isinstance(el[0], ast.Slice) and el[0].lower is None and el[0].upper is None and el[0].step is None) or (isinstance(el[0], ast.Constant) and el[0].value is Ellipsis))
+        if not (rows_all and isinstance(el[1], ast.Slice) and el[1].step is None and el[1].upper is not None and (el[1].lower is None or (isinstance(el[1].lower, ast.Constant) and el[1].lower.value == 0))):
+            raise AnalysisError(f"{q}: `{short(v, 60)}` is not a truncation of the columns `[:, :k]` (unrecognised form)")
+        up = nf.poly(_closed(cfg, el[1].upper, tn, matrices), Scope(None, mi, penv, q), None)
+        if up == spec(f"-{r_txt}"):
+            tests = [(nf.poly(_closed(cfg, cfg.nodes[b_].ast.test, b_, matrices), Scope(None, mi, penv, q), None).canon(), lab_) for b_, lab_ in cfg.control_deps(tn) if cfg.nodes[b_].kind == "test" and isinstance(cfg.nodes[b_].ast, ast.If)]
+            nonzero = {spec(t.replace("r", r_txt)).canon() for t in ("r", "-r", "r != 0", "-r != 0", "r > 0", "r >= 1", "-r < 0", "-r <= -1", "bool(r)", "bool(-r)")}
+            zero = {spec(t.replace("r", r_txt)).canon() for t in ("r == 0", "-r == 0", "not r", "not -r", "r <= 0", "r < 1", "-r >= 0")}
+            if any((c_ in nonzero and lab_) or (c_ in zero and not lab_) for c_, lab_ in tests):
+                ok_t = True
+            elif tests:
+                raise AnalysisError(f"{q}: the truncation `[:, :-r]` runs under `{tests[0][0][:60]}` (unrecognised form)")
+            else:
+                why = "`[:, :-r]` with r = n % batch_size is applied unconditionally: for r == 0 the slice is empty, the epoch has no batch and the members are not trained at all"
+        elif up in (spec(f"IDX.shape[1] - {r_txt}"), spec("(IDX.shape[1] // B) * B")):
+            ok_t = True
+        elif _unread(up) or not same_ingredients(up, spec(f"IDX.shape[1] - {r_txt} + (IDX.shape[1] // B)")):
+            raise AnalysisError(f"{q}: columns kept up to `{up.canon()[:80]}` (unrecognised form)")
+        else:
+            why = f"columns kept up to `{up.canon()[:80]}`: not the largest multiple of batch_size"
+    if ok_t is not None:
+        ck.ob("R4-bootstraps", q, "truncate-to-complete-batches", ok_t, f"{[short(t_, 60) for t_, _ in truncs]}", "" if ok_t else why, loc(mi, truncs[0][0]) if truncs else loc(mi, f))
+    # the matrix that is shuffled is the bootstrap sample, drawn once before the epochs
+    bd = list(boot_defs.values())
+    bfn = repo.func(PE + "bootstrap")
+    if len(bd) != 1 or bd[0].kind != "assign" or not isinstance(bd[0].value, ast.Call) or not isinstance(bd[0].value.func, (ast.Name, ast.Attribute)) or repo.resolve_expr(mi, bd[0].value.func) != PE + "bootstrap":
+        raise AnalysisError(f"{q}: the shuffled matrix `{sorted(n for n, _ in boot_names)}` is not the result of one bootstrap(...) call (unrecognised form)")
+    bb = bind_call(bfn, bd[0].value)
+    bp = _roles(bfn, 3, PE + "bootstrap")      # recorded: n_ensemble, train_size, n_samples
+    if any(bb.get(p_) is None or isinstance(bb.get(p_), list) for p_ in bp):
+        raise AnalysisError(f"{q}: `{short(bd[0].value, 80)}` does not bind {bp} (unrecognised form)")
+    gotb = [nf.poly(bb[p_], sc, bd[0].node) for p_ in bp]
+    ssc = Scope(None, mi, env, q)
+    wantb = [[nf.poly(parse_expr(f"{MODEL}.n_ensemble"), ssc, None)], [env[TS]], [nf.poly(parse_expr(t_.format(a_)), ssc, None) for a_ in (PX, PY) for t_ in ("len({})", "{}.shape[0]")]]
+    okb = all(g_ in w_ for g_, w_ in zip(gotb, wantb))
+    if not okb and any(_unread(g_) or not same_ingredients(g_, wantb[0][0] + wantb[1][0] + wantb[2][0] + wantb[2][1] + wantb[2][2]) for g_ in gotb):
+        raise AnalysisError(f"{q}: bootstrap({', '.join(g_.canon()[:40] for g_ in gotb)}, ...) (unrecognised form)")
+    once = not (set(epochs) & set(cfg.enclosing_loops(bd[0].node)))
+    ok = okb and once
+    ck.ob("R4-bootstraps", q, "bootstrap-once", ok, f"{bd[0].name} = {short(bd[0].value, 90)}", "" if ok else "the bootstrap sample of each member (n_ensemble rows of int(train_size * len(X)) indices) is drawn once, before the epochs", loc(mi, bd[0].value))
     # train_epoch scan body
     q = PE + "train_epoch"
-    f = repo.func(q)
-    body = next((n for n in ast.walk(f) if isinstance(n, ast.FunctionDef) and n is not f), None)
-    ck.need(body is not None, f"{q}: scan body not found")
+    f = _spelled(ck, repo, repo.func(q))
     from .c05 import grad_sites
-    body._module = f._module
-    bcfg = nf.cfg_of(body)
-    bparams = positional_params(body)
-    sites = grad_sites(repo, body, f._module)
-    if len(sites) != 1 or len(bparams) < 4:
-        raise AnalysisError(f"{q}: scan body has {len(sites)} gradient applications / {len(bparams)} parameters (unrecognised idiom)")
+    from ..expand import load_known
+    sites = grad_sites(repo, f, f._module)
+    if len(sites) != 1:
+        raise AnalysisError(f"{q}: {len(sites)} gradient applications (unrecognised idiom)")
     st_ = sites[0]
-    bsc2 = Scope(bcfg, f._module, {p_: Poly.atom(p_, {p_}, {p_}) for p_ in bparams}, q)
+    body = getattr(st_["app"], "_parent", None)
+    while body is not None and not isinstance(body, ast.FunctionDef):
+        body = getattr(body, "_parent", None)
+    if body is None or body is f:
+        raise AnalysisError(f"{q}: the gradient step is not taken in a local scan body (unrecognised idiom)")
+    bparams = _roles(body, 4, q + ".<locals>." + body.name)      # recorded: mod_opt, X, Y, batch
+    bcfg = nf.cfg_of(body)
+    benv = {p_: Poly.atom(p_, {p_}, {p_}) for p_ in param_names(body)}
+    bsc2 = Scope(bcfg, f._module, benv, q)
     try:
-        bat = bcfg.node_of(st_["app"]).id
+        bat2 = bcfg.node_of(st_["app"]).id
     except KeyError:
         raise AnalysisError(f"{q}: gradient application not found in the scan body's flow graph")
-    a_ = [nf.poly(x, bsc2, bat).canon() for x in st_["app"].args]
-    Xp, Yp, Bp = bparams[1], bparams[2], bparams[3]
     lossq = repo.resolve_expr(f._module, st_["loss"]) if isinstance(st_["loss"], (ast.Name, ast.Attribute)) else None
-    ok = lossq == PE + "gaussian_ensemble_loss" and st_["argnums"] == [0] and len(a_) >= 3 and a_[1] == f"{Xp}[{Bp}]" and a_[2] == f"{Yp}[{Bp}]"
-    ck.ob("R4-bootstraps", q, "member-batches", ok, "loss(model, X[batch], Y[batch]) with batch of shape (n_ensemble, batch_size)", "" if ok else "each scan step must evaluate member i on X[batch[i]], Y[batch[i]]", loc(f._module, body))
-    decs = [ast.unparse(d) for d in body.decorator_list]
-    ok = any("in_axes=(nnx.Carry, None, None, 0)" in d for d in decs)
-    ck.ob("R4-bootstraps", q, "scan-over-batches", ok, f"{decs}", "" if ok else "the scan must run over the leading (batch-number) axis of the index array only", loc(f._module, body))
+    if lossq != PE + "gaussian_ensemble_loss" and not (lossq and lossq in load_known() and repo.has(lossq)):
+        raise AnalysisError(f"{q}: differentiated function `{short(st_['loss'], 50) if st_['loss'] is not None else None}` (unrecognised form)")
+    Xp, Yp, Bp = bparams[1], bparams[2], bparams[3]
+    ok = lossq == PE + "gaussian_ensemble_loss" and st_["argnums"] == [0]
+    shown = f"{lossq.rsplit('.', 1)[-1]} differentiated w.r.t. {st_['argnums']}"
+    if lossq == PE + "gaussian_ensemble_loss":
+        lfn = repo.func(lossq)
+        app = st_["app"]
+        if any(isinstance(a, ast.Starred) for a in app.args) or any(k.arg is None for k in app.keywords):
+            raise AnalysisError(f"{q}: `{short(app, 60)}` (unrecognised form)")
+        lb = bind_call(lfn, app)
+        lp = _roles(lfn, 3, lossq)      # recorded: model, X, Y
+        if any(lb.get(p_) is None or isinstance(lb.get(p_), list) for p_ in lp[1:]):
+            raise AnalysisError(f"{q}: `{short(app, 60)}` does not bind {lp[1:]} (unrecognised form)")
+        a_ = [nf.poly(lb[p_], bsc2, bat2) for p_ in lp[1:]]
+        w_ = [nf.poly(parse_expr(f"{p_}[{Bp}]"), Scope(None, f._module, benv, q), None) for p_ in (Xp, Yp)]
+        okxy = a_ == w_
+        if not okxy and any(_unread(g_) or not same_ingredients(g_, w_[0] + w_[1]) for g_ in a_):
+            raise AnalysisError(f"{q}: the loss is evaluated on `{[g_.canon()[:40] for g_ in a_]}` (unrecognised form)")
+        ok = ok and okxy
+        shown = f"loss(model, {a_[0].canon()[:40]}, {a_[1].canon()[:40]}), batch of shape (n_ensemble, batch_size); differentiated w.r.t. {st_['argnums']}"
+    ck.ob("R4-bootstraps", q, "member-batches", ok, shown, "" if ok else "each scan step must evaluate (and differentiate w.r.t. the model) the ensemble loss of member i on X[batch[i]], Y[batch[i]]", loc(f._module, body))
+    # the scan runs over axis 0 of the index array only: in_axes read from the scan application (decorator or call wrapping the body)
+    scans = [d for d in body.decorator_list if isinstance(d, ast.Call)] + [c for c in ast.walk(f) if isinstance(c, ast.Call) and c.args and isinstance(c.args[0], ast.Name) and c.args[0].id == body.name]
+    scans = [c for c in scans if isinstance(c.func, (ast.Name, ast.Attribute)) and repo.resolve_expr(f._module, c.func) in ("flax.nnx.scan",)]
+    ia = [k.value for c in scans for k in c.keywords if k.arg == "in_axes"]
+    if len(scans) != 1 or len(ia) != 1 or not isinstance(ia[0], (ast.Tuple, ast.List)) or len(ia[0].elts) != 4:
+        raise AnalysisError(f"{q}: the scan over the batches `{[short(c, 60) for c in scans][:1]}` (unrecognised form)")
+    axes = []
+    for x in ia[0].elts:
+        if isinstance(x, ast.Constant) and (x.value is None or (isinstance(x.value, int) and not isinstance(x.value, bool))):
+            axes.append(x.value)
+        elif isinstance(x, (ast.Name, ast.Attribute)) and (repo.resolve_expr(f._module, x) or "").endswith("nnx.Carry"):
+            axes.append("Carry")
+        else:
+            raise AnalysisError(f"{q}: scan axis `{short(x, 30)}` (unrecognised form)")
+    ok = axes == ["Carry", None, None, 0]
+    ck.ob("R4-bootstraps", q, "scan-over-batches", ok, f"in_axes={axes}", "" if ok else "the scan must run over the leading (batch-number) axis of the index array only", loc(f._module, body))
 
 
 def r5_plans(ck, repo, nf):
     q = "rl_blox.algorithm.pets.evaluate_plans"
-    f = repo.func(q)
-    g = nf.return_poly(q, _env(f))
-    spec = ("reward_model(jnp.broadcast_to(actions[:, jnp.newaxis], (actions.shape[:2][0], trajectories.shape[1], actions.shape[:2][1]) + actions.shape[2:]), "
-            "trajectories[:, :, :-1]).sum(axis=-1).mean(axis=-1)")
-    w = nf.poly(parse_expr(spec), Scope(None, f._module, _env(f), q), None)
-    ck.ob("R5-plan-evaluation", q, "sum-horizon-mean-particles", g == w, g.canon()[:170], "" if g == w else f"must be mean_particles(sum_horizon(reward_model(broadcast actions, trajectories[:, :, :-1]))): `{w.canon()[:150]}`", loc(f._module, f))
+    f0 = repo.func(q)
+    f = _spelled(ck, repo, f0)
+    mi = f._module
+    PA, PT, PR = _roles(f, 3, q)      # recorded: actions, trajectories, reward_model
+    env = _env(f)
+    senv = _spec_env(f, ("actions", "trajectories", "reward_model"), q)
+    g, ret = _returned(nf, f, mi, env, q)
+    w_act = _spec(nf, repo, mi, "jnp.broadcast_to(actions[:, jnp.newaxis], (actions.shape[:2][0], trajectories.shape[1], actions.shape[:2][1]) + actions.shape[2:])", senv)
+    w_obs = _spec(nf, repo, mi, "trajectories[:, :, :-1]", senv)
+    shown = g.canon()[:170]
+    # reduce_2(reduce_1(reward_model(a, o), axis=k1), axis=k2): read layer by layer
+    layers, cur = [], g
+    for _ in range(2):
+        m_ = nf.meta.get(cur.single_atom() or "", {})
+        if m_.get("fn") not in ("sum", "mean") or not m_.get("args") or len(m_["args"]) != 1 or set(m_.get("kws", {})) - {"axis"}:
+            break
+        ax = m_["kws"]["axis"].const_value() if "axis" in m_.get("kws", {}) else "all"
+        layers.append((m_["fn"], ax))
+        cur = m_["args"][0]
+    m_ = nf.meta.get(cur.single_atom() or "", {})
+    if len(layers) != 2 or m_.get("fn") != env[PR].canon() or len(m_.get("args", [])) != 2 or m_.get("kws") or _unread(g) or any(ax is None for _f, ax in layers):
+        raise AnalysisError(f"{q}: expected returns `{shown[:110]}` are not reduce(reduce(reward_model(actions, observations))) (unrecognised form)")
+    (f1, a1), (f2, a2) = layers[1], layers[0]      # inner, outer
+    # rewards are (n_samples, n_particles, plan_horizon): the horizon is axis 2 == -1, afterwards the particles are axis 1 == -1
+    ok_red = f1 == "sum" and f2 == "mean" and a1 in (-1, 2) and a2 in (-1, 1)
+    why = "" if ok_red else f"{f2}(axis={a2}) of {f1}(axis={a1}) of the rewards (n_samples, n_particles, plan_horizon)"
+    got_act, got_obs = m_["args"]
+    ok_act = got_act == w_act
+    if not ok_act and not same_ingredients(got_act, w_act):
+        raise AnalysisError(f"{q}: actions handed to the reward model `{got_act.canon()[:100]}` (unrecognised form)")
+    ok_obs = got_obs == w_obs
+    if not ok_obs and not same_ingredients(got_obs, w_obs):
+        raise AnalysisError(f"{q}: observations handed to the reward model `{got_obs.canon()[:100]}` (unrecognised form)")
+    why = why or ("" if ok_act else "the actions are not broadcast over the particle axis") or ("" if ok_obs else f"the observations are `{got_obs.canon()[:60]}`, not the states the actions are taken in (trajectories[:, :, :-1])")
+    ok = ok_red and ok_act and ok_obs
+    ck.ob("R5-plan-evaluation", q, "sum-horizon-mean-particles", ok, shown, "" if ok else f"must be mean_particles(sum_horizon(reward_model(broadcast actions, trajectories[:, :, :-1]))): {why}", loc(mi, f))
     se = ShapeEngine(repo)
     se.module_out = {}
-    r = se.analyse(f, f._module, q, {"actions": ("S", "H", "A"), "trajectories": ("S", "P", "H1", "O")}, {"reward_model": Fn("lambda", ast.parse("lambda a, o: a[..., 0]", mode="eval").body, f._module, {})}, 0, {})
+    r = se.analyse(f0, f0._module, q, {PA: ("S", "H", "A"), PT: ("S", "P", "H1", "O")}, {PR: Fn("lambda", ast.parse("lambda a, o: a[..., 0]", mode="eval").body, f0._module, {})}, 0, {})
     ok = r == ("S",)
-    if r is None or (isinstance(r, tuple) and any(d is None for d in r)):
+    if r is None or not isinstance(r, tuple) or (r and r[0] in ("tuple", "dim", "dims", "fn")) or any(d is None for d in r):
         raise AnalysisError(f"{q}: result shape {r} not inferred (unrecognised form)")
-    ck.ob("R5-plan-evaluation", q, "one-return-per-plan", ok, f"actions (S,H,A), trajectories (S,P,H+1,O) -> {r}", "" if ok else "the result must have one expected return per candidate plan (S,)", loc(f._module, f))
+    ck.ob("R5-plan-evaluation", q, "one-return-per-plan", ok, f"actions (S,H,A), trajectories (S,P,H+1,O) -> {r}", "" if ok else "the result must have one expected return per candidate plan (S,)", loc(mi, f))
 
 
 def r6_pendulum(ck, repo, nf):
     q = "rl_blox.algorithm.pets_reward_models.pendulum_reward"
-    f = repo.func(q)
+    f = _spelled(ck, repo, repo.func(q))
     mi = f._module
-    g = nf.return_poly(q, _env(f))
-    want = nf.poly(parse_expr("-(norm_angle(jnp.arccos(jnp.clip(obs[..., 0], -1.0, 1.0))) ** 2 + 0.1 * obs[..., 2] ** 2 + 0.001 * jnp.clip(act, -PENDULUM_MAX_TORQUE, PENDULUM_MAX_TORQUE)[..., 0] ** 2)"), Scope(None, mi, _env(f), q), None)
-    ck.ob("R6-pendulum", q, "cost-form", g == want, g.canon()[:170], "" if g == want else f"differs from -(angle^2 + 0.1 thdot^2 + 0.001 u^2) by `{(g - want).canon()[:140]}`", loc(mi, f))
+    g, _r = _returned(nf, f, mi, _env(f), q)
+    g = _index_into_clip(nf, g)
+    # the torque bound the code clips to (read from the clip in the returned value, wherever the constant lives)
+    clips = [nf.meta[a] for a in g.atoms() if nf.meta.get(a, {}).get("fn", "").split(".")[-1] == "clip" and len(nf.meta[a].get("args", [])) == 3 and not nf.meta[a].get("kws")]
+    bounds = sorted(a_.const_value() for a_ in clips[0]["args"] if a_.const_value() is not None) if len(clips) == 1 else []
+    torque = bounds[1] if len(bounds) == 2 and bounds[0] == -bounds[1] else None
+    MT = repr(float(torque)) if torque is not None else "2.0"
+    # obs is (..., 3) = (cos, sin, theta_dot) and act is (..., 1) (asserted by the function): the components may be counted from either end
+    senv = _spec_env(f, ("act", "obs"), q)
+    want = [_index_into_clip(nf, _spec(nf, repo, mi, f"-(norm_angle(jnp.arccos(jnp.clip(obs[..., {c_}], -1.0, 1.0))) ** 2 + 0.1 * obs[..., {d_}] ** 2 + 0.001 * jnp.clip(act, -{MT}, {MT})[..., {u_}] ** 2)", senv))
+            for c_ in (0, -3) for d_ in (2, -1) for u_ in (0, -1)]
+    _decide(ck, "R6-pendulum", q, "cost-form", g, want, g.canon()[:170], f"differs from -(angle^2 + 0.1 thdot^2 + 0.001 u^2), u clipped to the torque limit, by `{(g - want[0]).canon()[:140]}`", loc(mi, f))
     path = "/venv/lib/python3.12/site-packages/gymnasium/envs/classic_control/pendulum.py"
     if not os.path.exists(path):
         ck.note("gymnasium source not found: R6 oracle cross-check skipped")
@@ -430,7 +935,6 @@ def r6_pendulum(ck, repo, nf):
     ok = gtxt == otxt
     ck.ob("R6-pendulum", q, "coefficients-match-gymnasium", ok, f"gymnasium costs = {gtxt}; ours = {otxt}", "" if ok else "the reward model's cost coefficients differ from the environment's", path.split("site-packages/")[1])
     na = repo.func("rl_blox.algorithm.pets_reward_models.norm_angle")
-    from ..sem import same_ingredients
     gp_, op_ = positional_params(an), positional_params(na)
     if len(gp_) != 1 or len(op_) != 1:
         raise AnalysisError("norm_angle / angle_normalize: expected one parameter (anchor changed)")
@@ -444,10 +948,16 @@ def r6_pendulum(ck, repo, nf):
     if a1n != a2n and not same_ingredients(p2, p1, ("jax", "numpy", "jnp", "np")):
         raise AnalysisError(f"rl_blox.algorithm.pets_reward_models.norm_angle: `{a2n[:80]}` (unrecognised form)")
     ck.ob("R6-pendulum", "rl_blox.algorithm.pets_reward_models.norm_angle", "matches-angle-normalize", a1n == a2n, f"gymnasium {a1n}; ours {a2n}", "" if a1n == a2n else "angle normalisation differs from the environment's", loc(mi, na))
-    ours_mt = mi.defs.get("PENDULUM_MAX_TORQUE")
-    v = ast.literal_eval(ours_mt.value) if isinstance(ours_mt, (ast.Assign, ast.AnnAssign)) else None
-    ok = v is not None and float(v) == float(ast.literal_eval(mt))
-    ck.ob("R6-pendulum", q, "max-torque", ok, f"gymnasium max_torque = {ast.unparse(mt)}; ours = {v}", "" if ok else "the torque clip differs from the environment's", loc(mi, f))
+    if torque is None:
+        ck.note("pendulum_reward: no symmetric torque clip with constant bounds was read (see cost-form): comparison with the environment's max_torque skipped")
+        return
+    try:
+        gym_mt = float(ast.literal_eval(mt))
+    except Exception:
+        ck.note("gymnasium Pendulum max_torque is not a literal: R6 torque cross-check skipped")
+        return
+    ok = float(torque) == gym_mt
+    ck.ob("R6-pendulum", q, "max-torque", ok, f"gymnasium max_torque = {ast.unparse(mt)}; ours = {float(torque)}", "" if ok else "the torque clip differs from the environment's", loc(mi, f))
 
 
 def run(ck, repo: Repo, tier: str):
@@ -485,6 +995,20 @@ MUTANTS = [
     {"id": "c17-pendulum-coefficient", "file": _R, "rule": "R6", "find": "    costs = norm_angle(theta) ** 2 + 0.1 * theta_dot**2 + 0.001 * (act**2)", "replace": "    costs = norm_angle(theta) ** 2 + 0.1 * theta_dot**2 + 0.01 * (act**2)"},
     {"id": "c17-pendulum-torque", "file": _R, "rule": "R6", "find": "PENDULUM_MAX_TORQUE: float = 2.0", "replace": "PENDULUM_MAX_TORQUE: float = 1.0"},
     {"id": "c17-pendulum-no-clip", "file": _R, "rule": "R6", "find": "    act = jnp.clip(act, -PENDULUM_MAX_TORQUE, PENDULUM_MAX_TORQUE)[..., 0]", "replace": "    act = act[..., 0]"},
+    {"id": "c17-bound-interval", "file": _E, "rule": "R3", "find": "        return constrained_param(self.raw_min_log_var.value, -20.0, 0.0)", "replace": "        return constrained_param(self.raw_min_log_var.value, -20.0, 10.0)"},
+    {"id": "c17-base-distribution-double-vmap", "file": _E, "rule": "R1", "find": "        log_var_i = self._safe_log_var_i(\n            log_var_i, self.min_log_var, self.max_log_var\n        )\n        std_i", "replace": "        log_var_i = self._safe_log_var(\n            log_var_i, self.min_log_var, self.max_log_var\n        )\n        std_i"},
+    {"id": "c17-tsinf-model-index-per-sample", "file": _P, "rule": "R1", "find": "    in_axes=(0, None, 0, None, None),\n", "replace": "    in_axes=(0, 0, 0, None, None),\n"},
+    {"id": "c17-train-epoch-swapped-data", "file": _E, "rule": "R4", "find": "            optimizer,\n            X,\n            Y,\n            batched_indices,\n", "replace": "            optimizer,\n            Y,\n            X,\n            batched_indices,\n"},
+    {"id": "c17-transpose-member-last", "file": _E, "rule": "R4", "find": "        ).transpose([2, 0, 1])", "replace": "        ).transpose([2, 1, 0])"},
+    {"id": "c17-truncation-count-not-columns", "file": _E, "rule": "R4", "find": "        remaining = -(bootstrap_indices.shape[1] % batch_size)\n        if remaining:\n            shuffled_indices = shuffled_indices[:, :remaining]", "replace": "        n_keep = bootstrap_indices.shape[1] // batch_size\n        shuffled_indices = shuffled_indices[:, :n_keep]"},
+    {"id": "c17-no-truncation", "file": _E, "rule": "R4", "find": "        remaining = -(bootstrap_indices.shape[1] % batch_size)\n        if remaining:\n            shuffled_indices = shuffled_indices[:, :remaining]\n", "replace": ""},
+    {"id": "c17-bootstrap-one-row", "file": _E, "rule": "R4", "find": "        model.n_ensemble, train_size, n_samples, bootstrap_key\n", "replace": "        1, train_size, n_samples, bootstrap_key\n"},
+    {"id": "c17-bootstrap-per-epoch", "file": _E, "rule": "R4", "find": "        key, shuffle_key = jax.random.split(key, 2)\n        shuffled_indices", "replace": "        key, shuffle_key = jax.random.split(key, 2)\n        bootstrap_indices = bootstrap(\n            model.n_ensemble, train_size, n_samples, shuffle_key\n        )\n        shuffled_indices"},
+    {"id": "c17-member0-batches", "file": _E, "rule": "R4", "find": "            model, X[batch], Y[batch]\n", "replace": "            model, X[batch[0]], Y[batch[0]]\n"},
+    {"id": "c17-scan-member-axis", "file": _E, "rule": "R4", "find": "    @nnx.scan(in_axes=(nnx.Carry, None, None, 0), out_axes=(nnx.Carry, 0))", "replace": "    @nnx.scan(in_axes=(nnx.Carry, None, None, 1), out_axes=(nnx.Carry, 0))"},
+    {"id": "c17-plans-sum-over-particles", "file": _P, "rule": "R5", "find": "    returns = rewards.sum(axis=-1)\n", "replace": "    returns = rewards.sum(axis=1)\n"},
+    {"id": "c17-plans-actions-not-per-particle", "file": _P, "rule": "R5", "find": "        actions[:, jnp.newaxis],\n", "replace": "        actions[jnp.newaxis],\n"},
+    {"id": "c17-aggregate-positional-wrong-axis", "file": _E, "rule": "R2", "find": "        epistemic_var = jnp.var(means, axis=0)", "replace": "        epistemic_var = jnp.var(means, 1)"},
 ]
 BENIGN = [
     {"id": "c17-b-tsinf-reparam", "file": "rl_blox/algorithm/pets.py", "edits": [("        dist = dynamics_model.base_distribution(\n", "        mean, var = dynamics_model.base_predict(\n"), ("        delta_obs = dist.sample(seed=sampling_key)[0]", "        noise = jax.random.normal(sampling_key, mean[0].shape, dtype=mean.dtype)\n        delta_obs = mean[0] + jnp.sqrt(var[0]) * noise")]},
@@ -493,4 +1017,28 @@ BENIGN = [
     {"id": "c17-b-aggregate-commuted", "file": _E, "find": "        return mean, aleatoric_var + epistemic_var", "replace": "        return mean, epistemic_var + aleatoric_var"},
     {"id": "c17-b-nll-rewrite", "file": _E, "find": "    return jnp.mean(squared_errors * inv_var) + 0.5 * jnp.mean(log_var_pred)", "replace": "    return 0.5 * jnp.mean(log_var_pred) + jnp.mean(inv_var * squared_errors)"},
     {"id": "c17-b-truncation-positive", "file": _E, "find": "        remaining = -(bootstrap_indices.shape[1] % batch_size)\n        if remaining:\n            shuffled_indices = shuffled_indices[:, :remaining]", "replace": "        n_keep = bootstrap_indices.shape[1] - bootstrap_indices.shape[1] % batch_size\n        shuffled_indices = shuffled_indices[:, :n_keep]"},
+    # renamed locals / parameters, keyword and positional spellings, equivalent axis numbers, moved definitions: same values
+    {"id": "c17-b-locals-renamed", "file": _E, "edits": [("    bootstrap_indices = bootstrap(", "    boot_idx = bootstrap("), ("            key, bootstrap_indices, axis=1\n", "            key, boot_idx, axis=-1\n"), ("        remaining = -(bootstrap_indices.shape[1] % batch_size)", "        remaining = -(boot_idx.shape[-1] % batch_size)"),
+                                                         ("        shuffled_indices = jax.random.permutation(", "        perm_idx = jax.random.permutation("), ("            shuffled_indices = shuffled_indices[:, :remaining]", "            perm_idx = perm_idx[..., :remaining]"), ("        batched_indices = shuffled_indices.reshape(\n            model.n_ensemble, batch_size, -1\n        ).transpose([2, 0, 1])", "        grouped = perm_idx.reshape(\n            perm_idx.shape[0], batch_size, -1\n        )\n        batched_indices = jnp.transpose(grouped, axes=(2, 0, 1))")]},
+    {"id": "c17-b-truncation-in-one-expression", "file": _E, "find": "        shuffled_indices = jax.random.permutation(\n            key, bootstrap_indices, axis=1\n        )\n        remaining = -(bootstrap_indices.shape[1] % batch_size)\n        if remaining:\n            shuffled_indices = shuffled_indices[:, :remaining]\n", "replace": "        n_keep = (bootstrap_indices.shape[1] // batch_size) * batch_size\n        shuffled_indices = jax.random.permutation(\n            key, x=bootstrap_indices, axis=1\n        )[:, :n_keep]\n"},
+    {"id": "c17-b-train-ensemble-renamed", "file": _E, "edits": [("    n_epochs: int,\n    batch_size: int,\n    key: jnp.ndarray,\n    verbose: int = 0,\n) -> jnp.ndarray:\n    \"\"\"Train ensemble.", "    n_epochs: int,\n    bs: int,\n    key: jnp.ndarray,\n    verbose: int = 0,\n) -> jnp.ndarray:\n    \"\"\"Train ensemble."), ("    assert batch_size > 0\n", "    assert bs > 0\n"), ("    n_samples = len(X)\n", "    n_samples = X.shape[0]\n"), ("        remaining = -(bootstrap_indices.shape[1] % batch_size)\n        if remaining:", "        remaining = -(bootstrap_indices.shape[1] % bs)\n        if remaining != 0:"),
+                                                                 ("            model.n_ensemble, batch_size, -1\n        ).transpose([2, 0, 1])", "            model.n_ensemble, bs, -1\n        ).transpose([2, 0, 1])"), ("        loss = train_epoch(\n            model,\n            optimizer,\n            X,\n            Y,\n            batched_indices,\n        )", "        loss = train_epoch(model=model, optimizer=optimizer, X=X, Y=Y, indices=batched_indices)")]},
+    {"id": "c17-b-scan-applied-as-call", "file": _E, "edits": [("    @nnx.scan(in_axes=(nnx.Carry, None, None, 0), out_axes=(nnx.Carry, 0))\n    def batch_update(mod_opt, X, Y, batch):\n        model, optimizer = mod_opt\n        loss, grads = nnx.value_and_grad(gaussian_ensemble_loss, argnums=0)(\n            model, X[batch], Y[batch]\n        )", "    def batch_update(carry, feats, targs, idx):\n        model, optimizer = carry\n        loss_and_grad = nnx.value_and_grad(gaussian_ensemble_loss)\n        loss, grads = loss_and_grad(model, feats[idx, :], targs[idx, :])"),
+                                                               ("    (model, optimizer), loss = batch_update((model, optimizer), X, Y, indices)", "    scanned = nnx.scan(batch_update, in_axes=[nnx.Carry, None, None, 0], out_axes=(nnx.Carry, 0))\n    (model, optimizer), loss = scanned((model, optimizer), X, Y, indices)")]},
+    {"id": "c17-b-positional-axes", "file": _E, "edits": [("        mean = jnp.mean(means, axis=0)\n        aleatoric_var = jnp.mean(jnp.exp(log_vars), axis=0)\n        epistemic_var = jnp.var(means, axis=0)", "        mean = means.mean(0)\n        aleatoric_var = jnp.mean(jnp.exp(log_vars), 0)\n        epistemic_var = jnp.var(means, 0)")]},
+    {"id": "c17-b-plans-absolute-axes", "file": _P, "edits": [("        actions[:, jnp.newaxis],\n", "        actions[:, None],\n"), ("    rewards = reward_model(broadcasted_actions, trajectories[:, :, :-1])", "    rewards = reward_model(broadcasted_actions, trajectories[:, :, :-1, ...])"), ("    returns = rewards.sum(axis=-1)\n    # mean along particle axis\n    expected_returns = returns.mean(axis=-1)", "    returns = jnp.sum(rewards, 2)\n    # mean along particle axis\n    expected_returns = returns.mean(1)")]},
+    {"id": "c17-b-formulas-renamed-parameters", "file": _E, "edits": [("    x: jnp.ndarray, min_val: ArrayLike, max_val: ArrayLike\n) -> jnp.ndarray:\n    \"\"\"Compute sigmoid-constrained parameter.\"\"\"\n    return min_val + (max_val - min_val) * jax.nn.sigmoid(x)", "    raw: jnp.ndarray, lo: ArrayLike, hi: ArrayLike\n) -> jnp.ndarray:\n    \"\"\"Compute sigmoid-constrained parameter.\"\"\"\n    return lo + (hi - lo) * jax.nn.sigmoid(raw)"),
+                                                                      ("        return constrained_param(self.raw_min_log_var.value, -20.0, 0.0)", "        lo, hi = -20.0, 0.0\n        return constrained_param(self.raw_min_log_var.value, lo=lo, hi=hi)"),
+                                                                      ("    mean, log_var = model(X)\n    boundary_loss = model.max_log_var.sum() - model.min_log_var.sum()\n    return gaussian_nll(mean, log_var, Y).sum() + 0.01 * boundary_loss", "    pred = model(X)\n    boundary_loss = jnp.sum(model.max_log_var - model.min_log_var)\n    return jnp.sum(gaussian_nll(mean_pred=pred[0], log_var_pred=pred[1], Y=Y)) + 0.01 * boundary_loss"),
+                                                                      ("    inv_var = jnp.exp(-log_var_pred)  # exp(-log_var) == 1.0 / exp(log_var)", "    inv_var = 1.0 / jnp.exp(log_var_pred)")]},
+    {"id": "c17-b-bounds-in-mixin", "file": _E, "edits": [("class GaussianMLPEnsemble(nnx.Module):\n", "class _BoundsMixin:\n    @property\n    def min_log_var(self):\n        return constrained_param(self.raw_min_log_var.value, -20.0, 0.0)\n\n    @property\n    def max_log_var(self):\n        return constrained_param(self.raw_max_log_var.value, -4.0, 5.0)\n\n\nclass GaussianMLPEnsemble(_BoundsMixin, nnx.Module):\n"), ("    @property\n    def min_log_var(self):\n        return constrained_param(self.raw_min_log_var.value, -20.0, 0.0)\n\n    @property\n    def max_log_var(self):\n        return constrained_param(self.raw_max_log_var.value, -4.0, 5.0)\n\n    def __call__", "    def __call__")]},
+    {"id": "c17-b-bounding-function-renamed", "file": _E, "edits": [("        def safe_log_var(log_var, min_log_var, max_log_var):\n            log_var = max_log_var - nnx.softplus(max_log_var - log_var)\n            log_var = min_log_var + nnx.softplus(log_var - min_log_var)\n            return log_var", "        def _bound(lv, lo, hi):\n            lv = hi - jax.nn.softplus(hi - lv)\n            return lo + jax.nn.softplus(lv - lo)"), ("nnx.vmap(safe_log_var, in_axes=(0, None, None))", "nnx.vmap(_bound, in_axes=[0, None, None])"), ("        self.raw_min_log_var = nnx.Param(jnp.zeros(self.n_outputs))", "        self.raw_min_log_var: nnx.Param = nnx.Param(jnp.zeros(self.n_outputs))\n        self._n_bounds = self.min_log_var.shape[0]")]},
+    {"id": "c17-b-methods-renamed-input", "file": _E, "edits": [("    def aggregate(self, x: jnp.ndarray)", "    def aggregate(self, inputs: jnp.ndarray)"), ("        means, log_vars = self._forward_ensemble(self.ensemble, x)\n\n        log_vars", "        means, log_vars = self._forward_ensemble(self.ensemble, inputs)\n\n        log_vars")]},
+    {"id": "c17-b-pendulum-clip-after-index", "file": _R, "edits": [("PENDULUM_MAX_TORQUE: float = 2.0", "MAX_TORQUE: float = 2.0"), ("def pendulum_reward(act: ArrayLike, obs: ArrayLike) -> jnp.ndarray:", "def pendulum_reward(action: ArrayLike, observation: ArrayLike) -> jnp.ndarray:"), ("    act = jnp.asarray(act)  # (..., 1): torque\n    obs = jnp.asarray(obs)  # (..., 3): cos(theta), sin(theta), theta_dot", "    act = jnp.asarray(action)  # (..., 1): torque\n    obs = jnp.asarray(observation)  # (..., 3): cos(theta), sin(theta), theta_dot"),
+                                                                    ("    act = jnp.clip(act, -PENDULUM_MAX_TORQUE, PENDULUM_MAX_TORQUE)[..., 0]", "    act = jnp.clip(act[..., 0], min=-MAX_TORQUE, max=MAX_TORQUE)")]},
+    {"id": "c17-b-tsinf-axes-as-lists", "file": _P, "edits": [("    in_axes=(0, None, 0, None, None),\n", "    in_axes=[0, None, 0, None, None],\n"), ("    in_axes=(0, 0, None, None, None),\n", "    in_axes=[0, 0, None, None, None],\n")]},
+    {"id": "c17-b-bounding-function-at-module-level", "file": _E, "all": True, "edits": [("class GaussianMLPEnsemble(nnx.Module):\n", "def safe_log_var(log_var, min_log_var, max_log_var):\n    log_var = max_log_var - nnx.softplus(max_log_var - log_var)\n    log_var = min_log_var + nnx.softplus(log_var - min_log_var)\n    return log_var\n\n\nclass GaussianMLPEnsemble(nnx.Module):\n"),
+                                                                                         ("        # TODO move safe_log_var to nnx.Module\n        def safe_log_var(log_var, min_log_var, max_log_var):\n            log_var = max_log_var - nnx.softplus(max_log_var - log_var)\n            log_var = min_log_var + nnx.softplus(log_var - min_log_var)\n            return log_var\n\n", ""),
+                                                                                         ("self._safe_log_var_i", "self._bound_member"), ("self._safe_log_var", "self._bound_ensemble")]},
+    {"id": "c17-b-pendulum-components-from-the-end", "file": _R, "edits": [("    theta_dot = obs[..., 2]", "    theta_dot = obs[..., -1]"), ("PENDULUM_MAX_TORQUE)[..., 0]", "PENDULUM_MAX_TORQUE)[..., -1]")]},
 ]
